@@ -876,3 +876,352 @@ Proof.
   intros. splits; [apply model0_spec|apply model1_spec|apply model2_spec|apply model3_spec|apply model4_spec
     |apply model5_spec|apply model6_spec|apply model7_spec|apply model8_spec].
 Qed.
+
+
+(** * 9. The 7-state model is the 9-state model reduced by the library's own matrices
+
+    Matrices as functions of two indices (index bookkeeping over GENERATED entries). *)
+Definition mat := nat -> nat -> R.
+Definition sum9 (f : nat -> R) : R :=
+  f 0%nat + f 1%nat + f 2%nat + f 3%nat + f 4%nat + f 5%nat + f 6%nat + f 7%nat + f 8%nat.
+Definition mmul9 (A B : mat) : mat := fun i j => sum9 (fun k => A i k * B k j).
+
+Definition F3m (lat lon alt VN VE VD roll pitch heading : R) (i j : nat) : R :=
+  match i, j with
+  | 0, 0 => sysmat3d_F00 lat lon alt VN VE VD roll pitch heading | 0, 1 => sysmat3d_F01 lat lon alt VN VE VD roll pitch heading | 0, 2 => sysmat3d_F02 lat lon alt VN VE VD roll pitch heading | 0, 3 => sysmat3d_F03 lat lon alt VN VE VD roll pitch heading | 0, 4 => sysmat3d_F04 lat lon alt VN VE VD roll pitch heading | 0, 5 => sysmat3d_F05 lat lon alt VN VE VD roll pitch heading | 0, 6 => sysmat3d_F06 lat lon alt VN VE VD roll pitch heading | 0, 7 => sysmat3d_F07 lat lon alt VN VE VD roll pitch heading | 0, 8 => sysmat3d_F08 lat lon alt VN VE VD roll pitch heading
+  | 1, 0 => sysmat3d_F10 lat lon alt VN VE VD roll pitch heading | 1, 1 => sysmat3d_F11 lat lon alt VN VE VD roll pitch heading | 1, 2 => sysmat3d_F12 lat lon alt VN VE VD roll pitch heading | 1, 3 => sysmat3d_F13 lat lon alt VN VE VD roll pitch heading | 1, 4 => sysmat3d_F14 lat lon alt VN VE VD roll pitch heading | 1, 5 => sysmat3d_F15 lat lon alt VN VE VD roll pitch heading | 1, 6 => sysmat3d_F16 lat lon alt VN VE VD roll pitch heading | 1, 7 => sysmat3d_F17 lat lon alt VN VE VD roll pitch heading | 1, 8 => sysmat3d_F18 lat lon alt VN VE VD roll pitch heading
+  | 2, 0 => sysmat3d_F20 lat lon alt VN VE VD roll pitch heading | 2, 1 => sysmat3d_F21 lat lon alt VN VE VD roll pitch heading | 2, 2 => sysmat3d_F22 lat lon alt VN VE VD roll pitch heading | 2, 3 => sysmat3d_F23 lat lon alt VN VE VD roll pitch heading | 2, 4 => sysmat3d_F24 lat lon alt VN VE VD roll pitch heading | 2, 5 => sysmat3d_F25 lat lon alt VN VE VD roll pitch heading | 2, 6 => sysmat3d_F26 lat lon alt VN VE VD roll pitch heading | 2, 7 => sysmat3d_F27 lat lon alt VN VE VD roll pitch heading | 2, 8 => sysmat3d_F28 lat lon alt VN VE VD roll pitch heading
+  | 3, 0 => sysmat3d_F30 lat lon alt VN VE VD roll pitch heading | 3, 1 => sysmat3d_F31 lat lon alt VN VE VD roll pitch heading | 3, 2 => sysmat3d_F32 lat lon alt VN VE VD roll pitch heading | 3, 3 => sysmat3d_F33 lat lon alt VN VE VD roll pitch heading | 3, 4 => sysmat3d_F34 lat lon alt VN VE VD roll pitch heading | 3, 5 => sysmat3d_F35 lat lon alt VN VE VD roll pitch heading | 3, 6 => sysmat3d_F36 lat lon alt VN VE VD roll pitch heading | 3, 7 => sysmat3d_F37 lat lon alt VN VE VD roll pitch heading | 3, 8 => sysmat3d_F38 lat lon alt VN VE VD roll pitch heading
+  | 4, 0 => sysmat3d_F40 lat lon alt VN VE VD roll pitch heading | 4, 1 => sysmat3d_F41 lat lon alt VN VE VD roll pitch heading | 4, 2 => sysmat3d_F42 lat lon alt VN VE VD roll pitch heading | 4, 3 => sysmat3d_F43 lat lon alt VN VE VD roll pitch heading | 4, 4 => sysmat3d_F44 lat lon alt VN VE VD roll pitch heading | 4, 5 => sysmat3d_F45 lat lon alt VN VE VD roll pitch heading | 4, 6 => sysmat3d_F46 lat lon alt VN VE VD roll pitch heading | 4, 7 => sysmat3d_F47 lat lon alt VN VE VD roll pitch heading | 4, 8 => sysmat3d_F48 lat lon alt VN VE VD roll pitch heading
+  | 5, 0 => sysmat3d_F50 lat lon alt VN VE VD roll pitch heading | 5, 1 => sysmat3d_F51 lat lon alt VN VE VD roll pitch heading | 5, 2 => sysmat3d_F52 lat lon alt VN VE VD roll pitch heading | 5, 3 => sysmat3d_F53 lat lon alt VN VE VD roll pitch heading | 5, 4 => sysmat3d_F54 lat lon alt VN VE VD roll pitch heading | 5, 5 => sysmat3d_F55 lat lon alt VN VE VD roll pitch heading | 5, 6 => sysmat3d_F56 lat lon alt VN VE VD roll pitch heading | 5, 7 => sysmat3d_F57 lat lon alt VN VE VD roll pitch heading | 5, 8 => sysmat3d_F58 lat lon alt VN VE VD roll pitch heading
+  | 6, 0 => sysmat3d_F60 lat lon alt VN VE VD roll pitch heading | 6, 1 => sysmat3d_F61 lat lon alt VN VE VD roll pitch heading | 6, 2 => sysmat3d_F62 lat lon alt VN VE VD roll pitch heading | 6, 3 => sysmat3d_F63 lat lon alt VN VE VD roll pitch heading | 6, 4 => sysmat3d_F64 lat lon alt VN VE VD roll pitch heading | 6, 5 => sysmat3d_F65 lat lon alt VN VE VD roll pitch heading | 6, 6 => sysmat3d_F66 lat lon alt VN VE VD roll pitch heading | 6, 7 => sysmat3d_F67 lat lon alt VN VE VD roll pitch heading | 6, 8 => sysmat3d_F68 lat lon alt VN VE VD roll pitch heading
+  | 7, 0 => sysmat3d_F70 lat lon alt VN VE VD roll pitch heading | 7, 1 => sysmat3d_F71 lat lon alt VN VE VD roll pitch heading | 7, 2 => sysmat3d_F72 lat lon alt VN VE VD roll pitch heading | 7, 3 => sysmat3d_F73 lat lon alt VN VE VD roll pitch heading | 7, 4 => sysmat3d_F74 lat lon alt VN VE VD roll pitch heading | 7, 5 => sysmat3d_F75 lat lon alt VN VE VD roll pitch heading | 7, 6 => sysmat3d_F76 lat lon alt VN VE VD roll pitch heading | 7, 7 => sysmat3d_F77 lat lon alt VN VE VD roll pitch heading | 7, 8 => sysmat3d_F78 lat lon alt VN VE VD roll pitch heading
+  | 8, 0 => sysmat3d_F80 lat lon alt VN VE VD roll pitch heading | 8, 1 => sysmat3d_F81 lat lon alt VN VE VD roll pitch heading | 8, 2 => sysmat3d_F82 lat lon alt VN VE VD roll pitch heading | 8, 3 => sysmat3d_F83 lat lon alt VN VE VD roll pitch heading | 8, 4 => sysmat3d_F84 lat lon alt VN VE VD roll pitch heading | 8, 5 => sysmat3d_F85 lat lon alt VN VE VD roll pitch heading | 8, 6 => sysmat3d_F86 lat lon alt VN VE VD roll pitch heading | 8, 7 => sysmat3d_F87 lat lon alt VN VE VD roll pitch heading | 8, 8 => sysmat3d_F88 lat lon alt VN VE VD roll pitch heading
+  | _, _ => 0%R
+  end%nat.
+Definition G3m (lat lon alt VN VE VD roll pitch heading : R) (i j : nat) : R :=
+  match i, j with
+  | 0, 0 => sysmat3d_G00 lat lon alt VN VE VD roll pitch heading | 0, 1 => sysmat3d_G01 lat lon alt VN VE VD roll pitch heading | 0, 2 => sysmat3d_G02 lat lon alt VN VE VD roll pitch heading
+  | 1, 0 => sysmat3d_G10 lat lon alt VN VE VD roll pitch heading | 1, 1 => sysmat3d_G11 lat lon alt VN VE VD roll pitch heading | 1, 2 => sysmat3d_G12 lat lon alt VN VE VD roll pitch heading
+  | 2, 0 => sysmat3d_G20 lat lon alt VN VE VD roll pitch heading | 2, 1 => sysmat3d_G21 lat lon alt VN VE VD roll pitch heading | 2, 2 => sysmat3d_G22 lat lon alt VN VE VD roll pitch heading
+  | 3, 0 => sysmat3d_G30 lat lon alt VN VE VD roll pitch heading | 3, 1 => sysmat3d_G31 lat lon alt VN VE VD roll pitch heading | 3, 2 => sysmat3d_G32 lat lon alt VN VE VD roll pitch heading
+  | 4, 0 => sysmat3d_G40 lat lon alt VN VE VD roll pitch heading | 4, 1 => sysmat3d_G41 lat lon alt VN VE VD roll pitch heading | 4, 2 => sysmat3d_G42 lat lon alt VN VE VD roll pitch heading
+  | 5, 0 => sysmat3d_G50 lat lon alt VN VE VD roll pitch heading | 5, 1 => sysmat3d_G51 lat lon alt VN VE VD roll pitch heading | 5, 2 => sysmat3d_G52 lat lon alt VN VE VD roll pitch heading
+  | 6, 0 => sysmat3d_G60 lat lon alt VN VE VD roll pitch heading | 6, 1 => sysmat3d_G61 lat lon alt VN VE VD roll pitch heading | 6, 2 => sysmat3d_G62 lat lon alt VN VE VD roll pitch heading
+  | 7, 0 => sysmat3d_G70 lat lon alt VN VE VD roll pitch heading | 7, 1 => sysmat3d_G71 lat lon alt VN VE VD roll pitch heading | 7, 2 => sysmat3d_G72 lat lon alt VN VE VD roll pitch heading
+  | 8, 0 => sysmat3d_G80 lat lon alt VN VE VD roll pitch heading | 8, 1 => sysmat3d_G81 lat lon alt VN VE VD roll pitch heading | 8, 2 => sysmat3d_G82 lat lon alt VN VE VD roll pitch heading
+  | _, _ => 0%R
+  end%nat.
+Definition A3m (lat lon alt VN VE VD roll pitch heading : R) (i j : nat) : R :=
+  match i, j with
+  | 0, 0 => sysmat3d_A00 lat lon alt VN VE VD roll pitch heading | 0, 1 => sysmat3d_A01 lat lon alt VN VE VD roll pitch heading | 0, 2 => sysmat3d_A02 lat lon alt VN VE VD roll pitch heading
+  | 1, 0 => sysmat3d_A10 lat lon alt VN VE VD roll pitch heading | 1, 1 => sysmat3d_A11 lat lon alt VN VE VD roll pitch heading | 1, 2 => sysmat3d_A12 lat lon alt VN VE VD roll pitch heading
+  | 2, 0 => sysmat3d_A20 lat lon alt VN VE VD roll pitch heading | 2, 1 => sysmat3d_A21 lat lon alt VN VE VD roll pitch heading | 2, 2 => sysmat3d_A22 lat lon alt VN VE VD roll pitch heading
+  | 3, 0 => sysmat3d_A30 lat lon alt VN VE VD roll pitch heading | 3, 1 => sysmat3d_A31 lat lon alt VN VE VD roll pitch heading | 3, 2 => sysmat3d_A32 lat lon alt VN VE VD roll pitch heading
+  | 4, 0 => sysmat3d_A40 lat lon alt VN VE VD roll pitch heading | 4, 1 => sysmat3d_A41 lat lon alt VN VE VD roll pitch heading | 4, 2 => sysmat3d_A42 lat lon alt VN VE VD roll pitch heading
+  | 5, 0 => sysmat3d_A50 lat lon alt VN VE VD roll pitch heading | 5, 1 => sysmat3d_A51 lat lon alt VN VE VD roll pitch heading | 5, 2 => sysmat3d_A52 lat lon alt VN VE VD roll pitch heading
+  | 6, 0 => sysmat3d_A60 lat lon alt VN VE VD roll pitch heading | 6, 1 => sysmat3d_A61 lat lon alt VN VE VD roll pitch heading | 6, 2 => sysmat3d_A62 lat lon alt VN VE VD roll pitch heading
+  | 7, 0 => sysmat3d_A70 lat lon alt VN VE VD roll pitch heading | 7, 1 => sysmat3d_A71 lat lon alt VN VE VD roll pitch heading | 7, 2 => sysmat3d_A72 lat lon alt VN VE VD roll pitch heading
+  | 8, 0 => sysmat3d_A80 lat lon alt VN VE VD roll pitch heading | 8, 1 => sysmat3d_A81 lat lon alt VN VE VD roll pitch heading | 8, 2 => sysmat3d_A82 lat lon alt VN VE VD roll pitch heading
+  | _, _ => 0%R
+  end%nat.
+Definition F2m (lat lon alt VN VE VD roll pitch heading : R) (i j : nat) : R :=
+  match i, j with
+  | 0, 0 => sysmat2d_F00 lat lon alt VN VE VD roll pitch heading | 0, 1 => sysmat2d_F01 lat lon alt VN VE VD roll pitch heading | 0, 2 => sysmat2d_F02 lat lon alt VN VE VD roll pitch heading | 0, 3 => sysmat2d_F03 lat lon alt VN VE VD roll pitch heading | 0, 4 => sysmat2d_F04 lat lon alt VN VE VD roll pitch heading | 0, 5 => sysmat2d_F05 lat lon alt VN VE VD roll pitch heading | 0, 6 => sysmat2d_F06 lat lon alt VN VE VD roll pitch heading
+  | 1, 0 => sysmat2d_F10 lat lon alt VN VE VD roll pitch heading | 1, 1 => sysmat2d_F11 lat lon alt VN VE VD roll pitch heading | 1, 2 => sysmat2d_F12 lat lon alt VN VE VD roll pitch heading | 1, 3 => sysmat2d_F13 lat lon alt VN VE VD roll pitch heading | 1, 4 => sysmat2d_F14 lat lon alt VN VE VD roll pitch heading | 1, 5 => sysmat2d_F15 lat lon alt VN VE VD roll pitch heading | 1, 6 => sysmat2d_F16 lat lon alt VN VE VD roll pitch heading
+  | 2, 0 => sysmat2d_F20 lat lon alt VN VE VD roll pitch heading | 2, 1 => sysmat2d_F21 lat lon alt VN VE VD roll pitch heading | 2, 2 => sysmat2d_F22 lat lon alt VN VE VD roll pitch heading | 2, 3 => sysmat2d_F23 lat lon alt VN VE VD roll pitch heading | 2, 4 => sysmat2d_F24 lat lon alt VN VE VD roll pitch heading | 2, 5 => sysmat2d_F25 lat lon alt VN VE VD roll pitch heading | 2, 6 => sysmat2d_F26 lat lon alt VN VE VD roll pitch heading
+  | 3, 0 => sysmat2d_F30 lat lon alt VN VE VD roll pitch heading | 3, 1 => sysmat2d_F31 lat lon alt VN VE VD roll pitch heading | 3, 2 => sysmat2d_F32 lat lon alt VN VE VD roll pitch heading | 3, 3 => sysmat2d_F33 lat lon alt VN VE VD roll pitch heading | 3, 4 => sysmat2d_F34 lat lon alt VN VE VD roll pitch heading | 3, 5 => sysmat2d_F35 lat lon alt VN VE VD roll pitch heading | 3, 6 => sysmat2d_F36 lat lon alt VN VE VD roll pitch heading
+  | 4, 0 => sysmat2d_F40 lat lon alt VN VE VD roll pitch heading | 4, 1 => sysmat2d_F41 lat lon alt VN VE VD roll pitch heading | 4, 2 => sysmat2d_F42 lat lon alt VN VE VD roll pitch heading | 4, 3 => sysmat2d_F43 lat lon alt VN VE VD roll pitch heading | 4, 4 => sysmat2d_F44 lat lon alt VN VE VD roll pitch heading | 4, 5 => sysmat2d_F45 lat lon alt VN VE VD roll pitch heading | 4, 6 => sysmat2d_F46 lat lon alt VN VE VD roll pitch heading
+  | 5, 0 => sysmat2d_F50 lat lon alt VN VE VD roll pitch heading | 5, 1 => sysmat2d_F51 lat lon alt VN VE VD roll pitch heading | 5, 2 => sysmat2d_F52 lat lon alt VN VE VD roll pitch heading | 5, 3 => sysmat2d_F53 lat lon alt VN VE VD roll pitch heading | 5, 4 => sysmat2d_F54 lat lon alt VN VE VD roll pitch heading | 5, 5 => sysmat2d_F55 lat lon alt VN VE VD roll pitch heading | 5, 6 => sysmat2d_F56 lat lon alt VN VE VD roll pitch heading
+  | 6, 0 => sysmat2d_F60 lat lon alt VN VE VD roll pitch heading | 6, 1 => sysmat2d_F61 lat lon alt VN VE VD roll pitch heading | 6, 2 => sysmat2d_F62 lat lon alt VN VE VD roll pitch heading | 6, 3 => sysmat2d_F63 lat lon alt VN VE VD roll pitch heading | 6, 4 => sysmat2d_F64 lat lon alt VN VE VD roll pitch heading | 6, 5 => sysmat2d_F65 lat lon alt VN VE VD roll pitch heading | 6, 6 => sysmat2d_F66 lat lon alt VN VE VD roll pitch heading
+  | _, _ => 0%R
+  end%nat.
+Definition G2m (lat lon alt VN VE VD roll pitch heading : R) (i j : nat) : R :=
+  match i, j with
+  | 0, 0 => sysmat2d_G00 lat lon alt VN VE VD roll pitch heading | 0, 1 => sysmat2d_G01 lat lon alt VN VE VD roll pitch heading | 0, 2 => sysmat2d_G02 lat lon alt VN VE VD roll pitch heading
+  | 1, 0 => sysmat2d_G10 lat lon alt VN VE VD roll pitch heading | 1, 1 => sysmat2d_G11 lat lon alt VN VE VD roll pitch heading | 1, 2 => sysmat2d_G12 lat lon alt VN VE VD roll pitch heading
+  | 2, 0 => sysmat2d_G20 lat lon alt VN VE VD roll pitch heading | 2, 1 => sysmat2d_G21 lat lon alt VN VE VD roll pitch heading | 2, 2 => sysmat2d_G22 lat lon alt VN VE VD roll pitch heading
+  | 3, 0 => sysmat2d_G30 lat lon alt VN VE VD roll pitch heading | 3, 1 => sysmat2d_G31 lat lon alt VN VE VD roll pitch heading | 3, 2 => sysmat2d_G32 lat lon alt VN VE VD roll pitch heading
+  | 4, 0 => sysmat2d_G40 lat lon alt VN VE VD roll pitch heading | 4, 1 => sysmat2d_G41 lat lon alt VN VE VD roll pitch heading | 4, 2 => sysmat2d_G42 lat lon alt VN VE VD roll pitch heading
+  | 5, 0 => sysmat2d_G50 lat lon alt VN VE VD roll pitch heading | 5, 1 => sysmat2d_G51 lat lon alt VN VE VD roll pitch heading | 5, 2 => sysmat2d_G52 lat lon alt VN VE VD roll pitch heading
+  | 6, 0 => sysmat2d_G60 lat lon alt VN VE VD roll pitch heading | 6, 1 => sysmat2d_G61 lat lon alt VN VE VD roll pitch heading | 6, 2 => sysmat2d_G62 lat lon alt VN VE VD roll pitch heading
+  | _, _ => 0%R
+  end%nat.
+Definition A2m (lat lon alt VN VE VD roll pitch heading : R) (i j : nat) : R :=
+  match i, j with
+  | 0, 0 => sysmat2d_A00 lat lon alt VN VE VD roll pitch heading | 0, 1 => sysmat2d_A01 lat lon alt VN VE VD roll pitch heading | 0, 2 => sysmat2d_A02 lat lon alt VN VE VD roll pitch heading
+  | 1, 0 => sysmat2d_A10 lat lon alt VN VE VD roll pitch heading | 1, 1 => sysmat2d_A11 lat lon alt VN VE VD roll pitch heading | 1, 2 => sysmat2d_A12 lat lon alt VN VE VD roll pitch heading
+  | 2, 0 => sysmat2d_A20 lat lon alt VN VE VD roll pitch heading | 2, 1 => sysmat2d_A21 lat lon alt VN VE VD roll pitch heading | 2, 2 => sysmat2d_A22 lat lon alt VN VE VD roll pitch heading
+  | 3, 0 => sysmat2d_A30 lat lon alt VN VE VD roll pitch heading | 3, 1 => sysmat2d_A31 lat lon alt VN VE VD roll pitch heading | 3, 2 => sysmat2d_A32 lat lon alt VN VE VD roll pitch heading
+  | 4, 0 => sysmat2d_A40 lat lon alt VN VE VD roll pitch heading | 4, 1 => sysmat2d_A41 lat lon alt VN VE VD roll pitch heading | 4, 2 => sysmat2d_A42 lat lon alt VN VE VD roll pitch heading
+  | 5, 0 => sysmat2d_A50 lat lon alt VN VE VD roll pitch heading | 5, 1 => sysmat2d_A51 lat lon alt VN VE VD roll pitch heading | 5, 2 => sysmat2d_A52 lat lon alt VN VE VD roll pitch heading
+  | 6, 0 => sysmat2d_A60 lat lon alt VN VE VD roll pitch heading | 6, 1 => sysmat2d_A61 lat lon alt VN VE VD roll pitch heading | 6, 2 => sysmat2d_A62 lat lon alt VN VE VD roll pitch heading
+  | _, _ => 0%R
+  end%nat.
+Definition T32m (VN VE : R) (i j : nat) : R :=
+  match i, j with
+  | 0, 0 => tr32_t00 VN VE | 0, 1 => tr32_t01 VN VE | 0, 2 => tr32_t02 VN VE | 0, 3 => tr32_t03 VN VE | 0, 4 => tr32_t04 VN VE | 0, 5 => tr32_t05 VN VE | 0, 6 => tr32_t06 VN VE
+  | 1, 0 => tr32_t10 VN VE | 1, 1 => tr32_t11 VN VE | 1, 2 => tr32_t12 VN VE | 1, 3 => tr32_t13 VN VE | 1, 4 => tr32_t14 VN VE | 1, 5 => tr32_t15 VN VE | 1, 6 => tr32_t16 VN VE
+  | 2, 0 => tr32_t20 VN VE | 2, 1 => tr32_t21 VN VE | 2, 2 => tr32_t22 VN VE | 2, 3 => tr32_t23 VN VE | 2, 4 => tr32_t24 VN VE | 2, 5 => tr32_t25 VN VE | 2, 6 => tr32_t26 VN VE
+  | 3, 0 => tr32_t30 VN VE | 3, 1 => tr32_t31 VN VE | 3, 2 => tr32_t32 VN VE | 3, 3 => tr32_t33 VN VE | 3, 4 => tr32_t34 VN VE | 3, 5 => tr32_t35 VN VE | 3, 6 => tr32_t36 VN VE
+  | 4, 0 => tr32_t40 VN VE | 4, 1 => tr32_t41 VN VE | 4, 2 => tr32_t42 VN VE | 4, 3 => tr32_t43 VN VE | 4, 4 => tr32_t44 VN VE | 4, 5 => tr32_t45 VN VE | 4, 6 => tr32_t46 VN VE
+  | 5, 0 => tr32_t50 VN VE | 5, 1 => tr32_t51 VN VE | 5, 2 => tr32_t52 VN VE | 5, 3 => tr32_t53 VN VE | 5, 4 => tr32_t54 VN VE | 5, 5 => tr32_t55 VN VE | 5, 6 => tr32_t56 VN VE
+  | 6, 0 => tr32_t60 VN VE | 6, 1 => tr32_t61 VN VE | 6, 2 => tr32_t62 VN VE | 6, 3 => tr32_t63 VN VE | 6, 4 => tr32_t64 VN VE | 6, 5 => tr32_t65 VN VE | 6, 6 => tr32_t66 VN VE
+  | 7, 0 => tr32_t70 VN VE | 7, 1 => tr32_t71 VN VE | 7, 2 => tr32_t72 VN VE | 7, 3 => tr32_t73 VN VE | 7, 4 => tr32_t74 VN VE | 7, 5 => tr32_t75 VN VE | 7, 6 => tr32_t76 VN VE
+  | 8, 0 => tr32_t80 VN VE | 8, 1 => tr32_t81 VN VE | 8, 2 => tr32_t82 VN VE | 8, 3 => tr32_t83 VN VE | 8, 4 => tr32_t84 VN VE | 8, 5 => tr32_t85 VN VE | 8, 6 => tr32_t86 VN VE
+  | _, _ => 0%R
+  end%nat.
+Definition T23m (i j : nat) : R :=
+  match i, j with
+  | 0, 0 => tr23_t00 | 0, 1 => tr23_t01 | 0, 2 => tr23_t02 | 0, 3 => tr23_t03 | 0, 4 => tr23_t04 | 0, 5 => tr23_t05 | 0, 6 => tr23_t06 | 0, 7 => tr23_t07 | 0, 8 => tr23_t08
+  | 1, 0 => tr23_t10 | 1, 1 => tr23_t11 | 1, 2 => tr23_t12 | 1, 3 => tr23_t13 | 1, 4 => tr23_t14 | 1, 5 => tr23_t15 | 1, 6 => tr23_t16 | 1, 7 => tr23_t17 | 1, 8 => tr23_t18
+  | 2, 0 => tr23_t20 | 2, 1 => tr23_t21 | 2, 2 => tr23_t22 | 2, 3 => tr23_t23 | 2, 4 => tr23_t24 | 2, 5 => tr23_t25 | 2, 6 => tr23_t26 | 2, 7 => tr23_t27 | 2, 8 => tr23_t28
+  | 3, 0 => tr23_t30 | 3, 1 => tr23_t31 | 3, 2 => tr23_t32 | 3, 3 => tr23_t33 | 3, 4 => tr23_t34 | 3, 5 => tr23_t35 | 3, 6 => tr23_t36 | 3, 7 => tr23_t37 | 3, 8 => tr23_t38
+  | 4, 0 => tr23_t40 | 4, 1 => tr23_t41 | 4, 2 => tr23_t42 | 4, 3 => tr23_t43 | 4, 4 => tr23_t44 | 4, 5 => tr23_t45 | 4, 6 => tr23_t46 | 4, 7 => tr23_t47 | 4, 8 => tr23_t48
+  | 5, 0 => tr23_t50 | 5, 1 => tr23_t51 | 5, 2 => tr23_t52 | 5, 3 => tr23_t53 | 5, 4 => tr23_t54 | 5, 5 => tr23_t55 | 5, 6 => tr23_t56 | 5, 7 => tr23_t57 | 5, 8 => tr23_t58
+  | 6, 0 => tr23_t60 | 6, 1 => tr23_t61 | 6, 2 => tr23_t62 | 6, 3 => tr23_t63 | 6, 4 => tr23_t64 | 6, 5 => tr23_t65 | 6, 6 => tr23_t66 | 6, 7 => tr23_t67 | 6, 8 => tr23_t68
+  | _, _ => 0%R
+  end%nat.
+
+Ltac red_tac :=
+  unfold mmul9, sum9; cbn [F3m G3m A3m F2m G2m A2m T32m T23m];
+  unfold sysmat2d_F00, sysmat2d_F01, sysmat2d_F02, sysmat2d_F03, sysmat2d_F04, sysmat2d_F05, sysmat2d_F06, sysmat2d_F10, sysmat2d_F11, sysmat2d_F12, sysmat2d_F13, sysmat2d_F14, sysmat2d_F15, sysmat2d_F16, sysmat2d_F20, sysmat2d_F21, sysmat2d_F22, sysmat2d_F23, sysmat2d_F24, sysmat2d_F25, sysmat2d_F26, sysmat2d_F30, sysmat2d_F31, sysmat2d_F32, sysmat2d_F33, sysmat2d_F34, sysmat2d_F35, sysmat2d_F36, sysmat2d_F40, sysmat2d_F41, sysmat2d_F42, sysmat2d_F43, sysmat2d_F44, sysmat2d_F45, sysmat2d_F46, sysmat2d_F50, sysmat2d_F51, sysmat2d_F52, sysmat2d_F53, sysmat2d_F54, sysmat2d_F55, sysmat2d_F56, sysmat2d_F60, sysmat2d_F61, sysmat2d_F62, sysmat2d_F63, sysmat2d_F64, sysmat2d_F65, sysmat2d_F66, sysmat2d_G00, sysmat2d_G01, sysmat2d_G02, sysmat2d_G10, sysmat2d_G11, sysmat2d_G12, sysmat2d_G20, sysmat2d_G21, sysmat2d_G22, sysmat2d_G30, sysmat2d_G31, sysmat2d_G32, sysmat2d_G40, sysmat2d_G41, sysmat2d_G42, sysmat2d_G50, sysmat2d_G51, sysmat2d_G52, sysmat2d_G60, sysmat2d_G61, sysmat2d_G62, sysmat2d_A00, sysmat2d_A01, sysmat2d_A02, sysmat2d_A10, sysmat2d_A11, sysmat2d_A12, sysmat2d_A20, sysmat2d_A21, sysmat2d_A22, sysmat2d_A30, sysmat2d_A31, sysmat2d_A32, sysmat2d_A40, sysmat2d_A41, sysmat2d_A42, sysmat2d_A50, sysmat2d_A51, sysmat2d_A52, sysmat2d_A60, sysmat2d_A61, sysmat2d_A62;
+  unfold sysmat3d_F00, sysmat3d_F01, sysmat3d_F02, sysmat3d_F03, sysmat3d_F04, sysmat3d_F05, sysmat3d_F06, sysmat3d_F07, sysmat3d_F08, sysmat3d_F10, sysmat3d_F11, sysmat3d_F12, sysmat3d_F13, sysmat3d_F14, sysmat3d_F15, sysmat3d_F16, sysmat3d_F17, sysmat3d_F18, sysmat3d_F20, sysmat3d_F21, sysmat3d_F22, sysmat3d_F23, sysmat3d_F24, sysmat3d_F25, sysmat3d_F26, sysmat3d_F27, sysmat3d_F28, sysmat3d_F30, sysmat3d_F31, sysmat3d_F32, sysmat3d_F33, sysmat3d_F34, sysmat3d_F35, sysmat3d_F36, sysmat3d_F37, sysmat3d_F38, sysmat3d_F40, sysmat3d_F41, sysmat3d_F42, sysmat3d_F43, sysmat3d_F44, sysmat3d_F45, sysmat3d_F46, sysmat3d_F47, sysmat3d_F48, sysmat3d_F50, sysmat3d_F51, sysmat3d_F52, sysmat3d_F53, sysmat3d_F54, sysmat3d_F55, sysmat3d_F56, sysmat3d_F57, sysmat3d_F58, sysmat3d_F60, sysmat3d_F61, sysmat3d_F62, sysmat3d_F63, sysmat3d_F64, sysmat3d_F65, sysmat3d_F66, sysmat3d_F67, sysmat3d_F68, sysmat3d_F70, sysmat3d_F71, sysmat3d_F72, sysmat3d_F73, sysmat3d_F74, sysmat3d_F75, sysmat3d_F76, sysmat3d_F77, sysmat3d_F78, sysmat3d_F80, sysmat3d_F81, sysmat3d_F82, sysmat3d_F83, sysmat3d_F84, sysmat3d_F85, sysmat3d_F86, sysmat3d_F87, sysmat3d_F88, sysmat3d_G00, sysmat3d_G01, sysmat3d_G02, sysmat3d_G10, sysmat3d_G11, sysmat3d_G12, sysmat3d_G20, sysmat3d_G21, sysmat3d_G22, sysmat3d_G30, sysmat3d_G31, sysmat3d_G32, sysmat3d_G40, sysmat3d_G41, sysmat3d_G42, sysmat3d_G50, sysmat3d_G51, sysmat3d_G52, sysmat3d_G60, sysmat3d_G61, sysmat3d_G62, sysmat3d_G70, sysmat3d_G71, sysmat3d_G72, sysmat3d_G80, sysmat3d_G81, sysmat3d_G82, sysmat3d_A00, sysmat3d_A01, sysmat3d_A02, sysmat3d_A10, sysmat3d_A11, sysmat3d_A12, sysmat3d_A20, sysmat3d_A21, sysmat3d_A22, sysmat3d_A30, sysmat3d_A31, sysmat3d_A32, sysmat3d_A40, sysmat3d_A41, sysmat3d_A42, sysmat3d_A50, sysmat3d_A51, sysmat3d_A52, sysmat3d_A60, sysmat3d_A61, sysmat3d_A62, sysmat3d_A70, sysmat3d_A71, sysmat3d_A72, sysmat3d_A80, sysmat3d_A81, sysmat3d_A82;
+  unfold tr32_t00, tr32_t01, tr32_t02, tr32_t03, tr32_t04, tr32_t05, tr32_t06, tr32_t10, tr32_t11, tr32_t12, tr32_t13, tr32_t14, tr32_t15, tr32_t16, tr32_t20, tr32_t21, tr32_t22, tr32_t23, tr32_t24, tr32_t25, tr32_t26, tr32_t30, tr32_t31, tr32_t32, tr32_t33, tr32_t34, tr32_t35, tr32_t36, tr32_t40, tr32_t41, tr32_t42, tr32_t43, tr32_t44, tr32_t45, tr32_t46, tr32_t50, tr32_t51, tr32_t52, tr32_t53, tr32_t54, tr32_t55, tr32_t56, tr32_t60, tr32_t61, tr32_t62, tr32_t63, tr32_t64, tr32_t65, tr32_t66, tr32_t70, tr32_t71, tr32_t72, tr32_t73, tr32_t74, tr32_t75, tr32_t76, tr32_t80, tr32_t81, tr32_t82, tr32_t83, tr32_t84, tr32_t85, tr32_t86, tr23_t00, tr23_t01, tr23_t02, tr23_t03, tr23_t04, tr23_t05, tr23_t06, tr23_t07, tr23_t08, tr23_t10, tr23_t11, tr23_t12, tr23_t13, tr23_t14, tr23_t15, tr23_t16, tr23_t17, tr23_t18, tr23_t20, tr23_t21, tr23_t22, tr23_t23, tr23_t24, tr23_t25, tr23_t26, tr23_t27, tr23_t28, tr23_t30, tr23_t31, tr23_t32, tr23_t33, tr23_t34, tr23_t35, tr23_t36, tr23_t37, tr23_t38, tr23_t40, tr23_t41, tr23_t42, tr23_t43, tr23_t44, tr23_t45, tr23_t46, tr23_t47, tr23_t48, tr23_t50, tr23_t51, tr23_t52, tr23_t53, tr23_t54, tr23_t55, tr23_t56, tr23_t57, tr23_t58, tr23_t60, tr23_t61, tr23_t62, tr23_t63, tr23_t64, tr23_t65, tr23_t66, tr23_t67, tr23_t68;
+  repeat autounfold with sysmat2d_db; repeat autounfold with sysmat3d_db; unfold Rdiv; ring.
+
+Lemma lt3_cases (P : nat -> Prop) : P 0%nat -> P 1%nat -> P 2%nat -> forall i, (i < 3)%nat -> P i.
+Proof. intros; do 3 (destruct i; [assumption|]); lia. Qed.
+Lemma lt7_cases (P : nat -> Prop) : P 0%nat -> P 1%nat -> P 2%nat -> P 3%nat -> P 4%nat -> P 5%nat -> P 6%nat ->
+  forall i, (i < 7)%nat -> P i.
+Proof. intros; do 7 (destruct i; [assumption|]); lia. Qed.
+Lemma lt9_cases (P : nat -> Prop) : P 0%nat -> P 1%nat -> P 2%nat -> P 3%nat -> P 4%nat -> P 5%nat -> P 6%nat ->
+  P 7%nat -> P 8%nat -> forall i, (i < 9)%nat -> P i.
+Proof. intros; do 9 (destruct i; [assumption|]); lia. Qed.
+
+Lemma reduction_2d_F : forall lat lon alt VN VE VD roll pitch heading (i j : nat), (i < 7)%nat -> (j < 7)%nat ->
+  F2m lat lon alt VN VE VD roll pitch heading i j = mmul9 T23m (mmul9 (F3m lat lon alt VN VE VD roll pitch heading) (T32m VN VE)) i j.
+Proof.
+  intros lat lon alt VN VE VD roll pitch heading i j Hi Hj.
+  revert j Hj; pattern i; revert i Hi; apply lt7_cases; intros j Hj; pattern j; revert j Hj; apply lt7_cases;
+    red_tac.
+Qed.
+
+Lemma reduction_2d_B : forall lat lon alt VN VE VD roll pitch heading (i j : nat), (i < 7)%nat -> (j < 3)%nat ->
+  G2m lat lon alt VN VE VD roll pitch heading i j = mmul9 T23m (G3m lat lon alt VN VE VD roll pitch heading) i j /\
+  A2m lat lon alt VN VE VD roll pitch heading i j = mmul9 T23m (A3m lat lon alt VN VE VD roll pitch heading) i j.
+Proof.
+  intros lat lon alt VN VE VD roll pitch heading i j Hi Hj.
+  revert j Hj; pattern i; revert i Hi; apply lt7_cases; intros j Hj; pattern j; revert j Hj; apply lt3_cases;
+    split; red_tac.
+Qed.
+
+
+(** TRANSFORM_2D_3D selects the states DR1 DR2 DV1 DV2 PHI1 PHI2 PHI3 (rows 0 1 3 4 6 7 8), and
+    _transform_3d_2d(VN, VE) is a right inverse of it whose DV3 row carries the constraint dv3 = VE phi1 - VN phi2 *)
+Definition sel7 (i : nat) : nat :=
+  match i with 0 => 0 | 1 => 1 | 2 => 3 | 3 => 4 | 4 => 6 | 5 => 7 | _ => 8 end%nat.
+Lemma t23_is_selection : forall i j : nat, (i < 7)%nat -> (j < 9)%nat ->
+  T23m i j = if Nat.eqb j (sel7 i) then 1 else 0.
+Proof.
+  intros i j Hi Hj.
+  revert j Hj; pattern i; revert i Hi; apply lt7_cases; intros j Hj; pattern j; revert j Hj; apply lt9_cases;
+    reflexivity.
+Qed.
+Lemma t23_t32_identity : forall (VN VE : R) (i j : nat), (i < 7)%nat -> (j < 7)%nat ->
+  mmul9 T23m (T32m VN VE) i j = if Nat.eqb i j then 1 else 0.
+Proof.
+  intros VN VE i j Hi Hj.
+  revert j Hj; pattern i; revert i Hi; apply lt7_cases; intros j Hj; pattern j; revert j Hj; apply lt7_cases;
+    cbn [Nat.eqb]; red_tac.
+Qed.
+Lemma t32_constraint_row : forall (VN VE : R),
+  T32m VN VE 5%nat 4%nat = VE /\ T32m VN VE 5%nat 5%nat = - VN /\
+  T32m VN VE 2%nat 0%nat = 0 /\ T32m VN VE 2%nat 1%nat = 0 /\ T32m VN VE 2%nat 2%nat = 0 /\ T32m VN VE 2%nat 3%nat = 0 /\
+  T32m VN VE 2%nat 4%nat = 0 /\ T32m VN VE 2%nat 5%nat = 0 /\ T32m VN VE 2%nat 6%nat = 0.
+Proof. intros. cbn [T32m]. repeat split; reflexivity. Qed.
+
+
+(** * 10. One step of propagate_errors is consistent with  x' = F x + B_gyro e_g + B_accel e_a
+
+    [prop3 i dt Fa Fb Ga Gb Aa Ab x eg ea] is the GENERATED component i of the second row of model_error as a
+    function of the step dt, the system matrices at the two epochs (a = start, b = end), the initial error x and the
+    constant sensor errors. *)
+Definition prop3 (i : nat) (dt : R) (Fa Fb Ga Gb Aa Ab : mat) (x eg ea : nat -> R) : R :=
+  match i with
+  | 0 => prop3d_x0 dt (Fa 0%nat 0%nat) (Fa 0%nat 1%nat) (Fa 0%nat 2%nat) (Fa 0%nat 3%nat) (Fa 0%nat 4%nat) (Fa 0%nat 5%nat) (Fa 0%nat 6%nat) (Fa 0%nat 7%nat) (Fa 0%nat 8%nat) (Fa 1%nat 0%nat) (Fa 1%nat 1%nat) (Fa 1%nat 2%nat) (Fa 1%nat 3%nat) (Fa 1%nat 4%nat) (Fa 1%nat 5%nat) (Fa 1%nat 6%nat) (Fa 1%nat 7%nat) (Fa 1%nat 8%nat) (Fa 2%nat 0%nat) (Fa 2%nat 1%nat) (Fa 2%nat 2%nat) (Fa 2%nat 3%nat) (Fa 2%nat 4%nat) (Fa 2%nat 5%nat) (Fa 2%nat 6%nat) (Fa 2%nat 7%nat) (Fa 2%nat 8%nat) (Fa 3%nat 0%nat) (Fa 3%nat 1%nat) (Fa 3%nat 2%nat) (Fa 3%nat 3%nat) (Fa 3%nat 4%nat) (Fa 3%nat 5%nat) (Fa 3%nat 6%nat) (Fa 3%nat 7%nat) (Fa 3%nat 8%nat) (Fa 4%nat 0%nat) (Fa 4%nat 1%nat) (Fa 4%nat 2%nat) (Fa 4%nat 3%nat) (Fa 4%nat 4%nat) (Fa 4%nat 5%nat) (Fa 4%nat 6%nat) (Fa 4%nat 7%nat) (Fa 4%nat 8%nat) (Fa 5%nat 0%nat) (Fa 5%nat 1%nat) (Fa 5%nat 2%nat) (Fa 5%nat 3%nat) (Fa 5%nat 4%nat) (Fa 5%nat 5%nat) (Fa 5%nat 6%nat) (Fa 5%nat 7%nat) (Fa 5%nat 8%nat) (Fa 6%nat 0%nat) (Fa 6%nat 1%nat) (Fa 6%nat 2%nat) (Fa 6%nat 3%nat) (Fa 6%nat 4%nat) (Fa 6%nat 5%nat) (Fa 6%nat 6%nat) (Fa 6%nat 7%nat) (Fa 6%nat 8%nat) (Fa 7%nat 0%nat) (Fa 7%nat 1%nat) (Fa 7%nat 2%nat) (Fa 7%nat 3%nat) (Fa 7%nat 4%nat) (Fa 7%nat 5%nat) (Fa 7%nat 6%nat) (Fa 7%nat 7%nat) (Fa 7%nat 8%nat) (Fa 8%nat 0%nat) (Fa 8%nat 1%nat) (Fa 8%nat 2%nat) (Fa 8%nat 3%nat) (Fa 8%nat 4%nat) (Fa 8%nat 5%nat) (Fa 8%nat 6%nat) (Fa 8%nat 7%nat) (Fa 8%nat 8%nat) (Fb 0%nat 0%nat) (Fb 0%nat 1%nat) (Fb 0%nat 2%nat) (Fb 0%nat 3%nat) (Fb 0%nat 4%nat) (Fb 0%nat 5%nat) (Fb 0%nat 6%nat) (Fb 0%nat 7%nat) (Fb 0%nat 8%nat) (Fb 1%nat 0%nat) (Fb 1%nat 1%nat) (Fb 1%nat 2%nat) (Fb 1%nat 3%nat) (Fb 1%nat 4%nat) (Fb 1%nat 5%nat) (Fb 1%nat 6%nat) (Fb 1%nat 7%nat) (Fb 1%nat 8%nat) (Fb 2%nat 0%nat) (Fb 2%nat 1%nat) (Fb 2%nat 2%nat) (Fb 2%nat 3%nat) (Fb 2%nat 4%nat) (Fb 2%nat 5%nat) (Fb 2%nat 6%nat) (Fb 2%nat 7%nat) (Fb 2%nat 8%nat) (Fb 3%nat 0%nat) (Fb 3%nat 1%nat) (Fb 3%nat 2%nat) (Fb 3%nat 3%nat) (Fb 3%nat 4%nat) (Fb 3%nat 5%nat) (Fb 3%nat 6%nat) (Fb 3%nat 7%nat) (Fb 3%nat 8%nat) (Fb 4%nat 0%nat) (Fb 4%nat 1%nat) (Fb 4%nat 2%nat) (Fb 4%nat 3%nat) (Fb 4%nat 4%nat) (Fb 4%nat 5%nat) (Fb 4%nat 6%nat) (Fb 4%nat 7%nat) (Fb 4%nat 8%nat) (Fb 5%nat 0%nat) (Fb 5%nat 1%nat) (Fb 5%nat 2%nat) (Fb 5%nat 3%nat) (Fb 5%nat 4%nat) (Fb 5%nat 5%nat) (Fb 5%nat 6%nat) (Fb 5%nat 7%nat) (Fb 5%nat 8%nat) (Fb 6%nat 0%nat) (Fb 6%nat 1%nat) (Fb 6%nat 2%nat) (Fb 6%nat 3%nat) (Fb 6%nat 4%nat) (Fb 6%nat 5%nat) (Fb 6%nat 6%nat) (Fb 6%nat 7%nat) (Fb 6%nat 8%nat) (Fb 7%nat 0%nat) (Fb 7%nat 1%nat) (Fb 7%nat 2%nat) (Fb 7%nat 3%nat) (Fb 7%nat 4%nat) (Fb 7%nat 5%nat) (Fb 7%nat 6%nat) (Fb 7%nat 7%nat) (Fb 7%nat 8%nat) (Fb 8%nat 0%nat) (Fb 8%nat 1%nat) (Fb 8%nat 2%nat) (Fb 8%nat 3%nat) (Fb 8%nat 4%nat) (Fb 8%nat 5%nat) (Fb 8%nat 6%nat) (Fb 8%nat 7%nat) (Fb 8%nat 8%nat) (Ga 0%nat 0%nat) (Ga 0%nat 1%nat) (Ga 0%nat 2%nat) (Ga 1%nat 0%nat) (Ga 1%nat 1%nat) (Ga 1%nat 2%nat) (Ga 2%nat 0%nat) (Ga 2%nat 1%nat) (Ga 2%nat 2%nat) (Ga 3%nat 0%nat) (Ga 3%nat 1%nat) (Ga 3%nat 2%nat) (Ga 4%nat 0%nat) (Ga 4%nat 1%nat) (Ga 4%nat 2%nat) (Ga 5%nat 0%nat) (Ga 5%nat 1%nat) (Ga 5%nat 2%nat) (Ga 6%nat 0%nat) (Ga 6%nat 1%nat) (Ga 6%nat 2%nat) (Ga 7%nat 0%nat) (Ga 7%nat 1%nat) (Ga 7%nat 2%nat) (Ga 8%nat 0%nat) (Ga 8%nat 1%nat) (Ga 8%nat 2%nat) (Gb 0%nat 0%nat) (Gb 0%nat 1%nat) (Gb 0%nat 2%nat) (Gb 1%nat 0%nat) (Gb 1%nat 1%nat) (Gb 1%nat 2%nat) (Gb 2%nat 0%nat) (Gb 2%nat 1%nat) (Gb 2%nat 2%nat) (Gb 3%nat 0%nat) (Gb 3%nat 1%nat) (Gb 3%nat 2%nat) (Gb 4%nat 0%nat) (Gb 4%nat 1%nat) (Gb 4%nat 2%nat) (Gb 5%nat 0%nat) (Gb 5%nat 1%nat) (Gb 5%nat 2%nat) (Gb 6%nat 0%nat) (Gb 6%nat 1%nat) (Gb 6%nat 2%nat) (Gb 7%nat 0%nat) (Gb 7%nat 1%nat) (Gb 7%nat 2%nat) (Gb 8%nat 0%nat) (Gb 8%nat 1%nat) (Gb 8%nat 2%nat) (Aa 0%nat 0%nat) (Aa 0%nat 1%nat) (Aa 0%nat 2%nat) (Aa 1%nat 0%nat) (Aa 1%nat 1%nat) (Aa 1%nat 2%nat) (Aa 2%nat 0%nat) (Aa 2%nat 1%nat) (Aa 2%nat 2%nat) (Aa 3%nat 0%nat) (Aa 3%nat 1%nat) (Aa 3%nat 2%nat) (Aa 4%nat 0%nat) (Aa 4%nat 1%nat) (Aa 4%nat 2%nat) (Aa 5%nat 0%nat) (Aa 5%nat 1%nat) (Aa 5%nat 2%nat) (Aa 6%nat 0%nat) (Aa 6%nat 1%nat) (Aa 6%nat 2%nat) (Aa 7%nat 0%nat) (Aa 7%nat 1%nat) (Aa 7%nat 2%nat) (Aa 8%nat 0%nat) (Aa 8%nat 1%nat) (Aa 8%nat 2%nat) (Ab 0%nat 0%nat) (Ab 0%nat 1%nat) (Ab 0%nat 2%nat) (Ab 1%nat 0%nat) (Ab 1%nat 1%nat) (Ab 1%nat 2%nat) (Ab 2%nat 0%nat) (Ab 2%nat 1%nat) (Ab 2%nat 2%nat) (Ab 3%nat 0%nat) (Ab 3%nat 1%nat) (Ab 3%nat 2%nat) (Ab 4%nat 0%nat) (Ab 4%nat 1%nat) (Ab 4%nat 2%nat) (Ab 5%nat 0%nat) (Ab 5%nat 1%nat) (Ab 5%nat 2%nat) (Ab 6%nat 0%nat) (Ab 6%nat 1%nat) (Ab 6%nat 2%nat) (Ab 7%nat 0%nat) (Ab 7%nat 1%nat) (Ab 7%nat 2%nat) (Ab 8%nat 0%nat) (Ab 8%nat 1%nat) (Ab 8%nat 2%nat) (x 0%nat) (x 1%nat) (x 2%nat) (x 3%nat) (x 4%nat) (x 5%nat) (x 6%nat) (x 7%nat) (x 8%nat) (eg 0%nat) (eg 1%nat) (eg 2%nat) (ea 0%nat) (ea 1%nat) (ea 2%nat)
+  | 1 => prop3d_x1 dt (Fa 0%nat 0%nat) (Fa 0%nat 1%nat) (Fa 0%nat 2%nat) (Fa 0%nat 3%nat) (Fa 0%nat 4%nat) (Fa 0%nat 5%nat) (Fa 0%nat 6%nat) (Fa 0%nat 7%nat) (Fa 0%nat 8%nat) (Fa 1%nat 0%nat) (Fa 1%nat 1%nat) (Fa 1%nat 2%nat) (Fa 1%nat 3%nat) (Fa 1%nat 4%nat) (Fa 1%nat 5%nat) (Fa 1%nat 6%nat) (Fa 1%nat 7%nat) (Fa 1%nat 8%nat) (Fa 2%nat 0%nat) (Fa 2%nat 1%nat) (Fa 2%nat 2%nat) (Fa 2%nat 3%nat) (Fa 2%nat 4%nat) (Fa 2%nat 5%nat) (Fa 2%nat 6%nat) (Fa 2%nat 7%nat) (Fa 2%nat 8%nat) (Fa 3%nat 0%nat) (Fa 3%nat 1%nat) (Fa 3%nat 2%nat) (Fa 3%nat 3%nat) (Fa 3%nat 4%nat) (Fa 3%nat 5%nat) (Fa 3%nat 6%nat) (Fa 3%nat 7%nat) (Fa 3%nat 8%nat) (Fa 4%nat 0%nat) (Fa 4%nat 1%nat) (Fa 4%nat 2%nat) (Fa 4%nat 3%nat) (Fa 4%nat 4%nat) (Fa 4%nat 5%nat) (Fa 4%nat 6%nat) (Fa 4%nat 7%nat) (Fa 4%nat 8%nat) (Fa 5%nat 0%nat) (Fa 5%nat 1%nat) (Fa 5%nat 2%nat) (Fa 5%nat 3%nat) (Fa 5%nat 4%nat) (Fa 5%nat 5%nat) (Fa 5%nat 6%nat) (Fa 5%nat 7%nat) (Fa 5%nat 8%nat) (Fa 6%nat 0%nat) (Fa 6%nat 1%nat) (Fa 6%nat 2%nat) (Fa 6%nat 3%nat) (Fa 6%nat 4%nat) (Fa 6%nat 5%nat) (Fa 6%nat 6%nat) (Fa 6%nat 7%nat) (Fa 6%nat 8%nat) (Fa 7%nat 0%nat) (Fa 7%nat 1%nat) (Fa 7%nat 2%nat) (Fa 7%nat 3%nat) (Fa 7%nat 4%nat) (Fa 7%nat 5%nat) (Fa 7%nat 6%nat) (Fa 7%nat 7%nat) (Fa 7%nat 8%nat) (Fa 8%nat 0%nat) (Fa 8%nat 1%nat) (Fa 8%nat 2%nat) (Fa 8%nat 3%nat) (Fa 8%nat 4%nat) (Fa 8%nat 5%nat) (Fa 8%nat 6%nat) (Fa 8%nat 7%nat) (Fa 8%nat 8%nat) (Fb 0%nat 0%nat) (Fb 0%nat 1%nat) (Fb 0%nat 2%nat) (Fb 0%nat 3%nat) (Fb 0%nat 4%nat) (Fb 0%nat 5%nat) (Fb 0%nat 6%nat) (Fb 0%nat 7%nat) (Fb 0%nat 8%nat) (Fb 1%nat 0%nat) (Fb 1%nat 1%nat) (Fb 1%nat 2%nat) (Fb 1%nat 3%nat) (Fb 1%nat 4%nat) (Fb 1%nat 5%nat) (Fb 1%nat 6%nat) (Fb 1%nat 7%nat) (Fb 1%nat 8%nat) (Fb 2%nat 0%nat) (Fb 2%nat 1%nat) (Fb 2%nat 2%nat) (Fb 2%nat 3%nat) (Fb 2%nat 4%nat) (Fb 2%nat 5%nat) (Fb 2%nat 6%nat) (Fb 2%nat 7%nat) (Fb 2%nat 8%nat) (Fb 3%nat 0%nat) (Fb 3%nat 1%nat) (Fb 3%nat 2%nat) (Fb 3%nat 3%nat) (Fb 3%nat 4%nat) (Fb 3%nat 5%nat) (Fb 3%nat 6%nat) (Fb 3%nat 7%nat) (Fb 3%nat 8%nat) (Fb 4%nat 0%nat) (Fb 4%nat 1%nat) (Fb 4%nat 2%nat) (Fb 4%nat 3%nat) (Fb 4%nat 4%nat) (Fb 4%nat 5%nat) (Fb 4%nat 6%nat) (Fb 4%nat 7%nat) (Fb 4%nat 8%nat) (Fb 5%nat 0%nat) (Fb 5%nat 1%nat) (Fb 5%nat 2%nat) (Fb 5%nat 3%nat) (Fb 5%nat 4%nat) (Fb 5%nat 5%nat) (Fb 5%nat 6%nat) (Fb 5%nat 7%nat) (Fb 5%nat 8%nat) (Fb 6%nat 0%nat) (Fb 6%nat 1%nat) (Fb 6%nat 2%nat) (Fb 6%nat 3%nat) (Fb 6%nat 4%nat) (Fb 6%nat 5%nat) (Fb 6%nat 6%nat) (Fb 6%nat 7%nat) (Fb 6%nat 8%nat) (Fb 7%nat 0%nat) (Fb 7%nat 1%nat) (Fb 7%nat 2%nat) (Fb 7%nat 3%nat) (Fb 7%nat 4%nat) (Fb 7%nat 5%nat) (Fb 7%nat 6%nat) (Fb 7%nat 7%nat) (Fb 7%nat 8%nat) (Fb 8%nat 0%nat) (Fb 8%nat 1%nat) (Fb 8%nat 2%nat) (Fb 8%nat 3%nat) (Fb 8%nat 4%nat) (Fb 8%nat 5%nat) (Fb 8%nat 6%nat) (Fb 8%nat 7%nat) (Fb 8%nat 8%nat) (Ga 0%nat 0%nat) (Ga 0%nat 1%nat) (Ga 0%nat 2%nat) (Ga 1%nat 0%nat) (Ga 1%nat 1%nat) (Ga 1%nat 2%nat) (Ga 2%nat 0%nat) (Ga 2%nat 1%nat) (Ga 2%nat 2%nat) (Ga 3%nat 0%nat) (Ga 3%nat 1%nat) (Ga 3%nat 2%nat) (Ga 4%nat 0%nat) (Ga 4%nat 1%nat) (Ga 4%nat 2%nat) (Ga 5%nat 0%nat) (Ga 5%nat 1%nat) (Ga 5%nat 2%nat) (Ga 6%nat 0%nat) (Ga 6%nat 1%nat) (Ga 6%nat 2%nat) (Ga 7%nat 0%nat) (Ga 7%nat 1%nat) (Ga 7%nat 2%nat) (Ga 8%nat 0%nat) (Ga 8%nat 1%nat) (Ga 8%nat 2%nat) (Gb 0%nat 0%nat) (Gb 0%nat 1%nat) (Gb 0%nat 2%nat) (Gb 1%nat 0%nat) (Gb 1%nat 1%nat) (Gb 1%nat 2%nat) (Gb 2%nat 0%nat) (Gb 2%nat 1%nat) (Gb 2%nat 2%nat) (Gb 3%nat 0%nat) (Gb 3%nat 1%nat) (Gb 3%nat 2%nat) (Gb 4%nat 0%nat) (Gb 4%nat 1%nat) (Gb 4%nat 2%nat) (Gb 5%nat 0%nat) (Gb 5%nat 1%nat) (Gb 5%nat 2%nat) (Gb 6%nat 0%nat) (Gb 6%nat 1%nat) (Gb 6%nat 2%nat) (Gb 7%nat 0%nat) (Gb 7%nat 1%nat) (Gb 7%nat 2%nat) (Gb 8%nat 0%nat) (Gb 8%nat 1%nat) (Gb 8%nat 2%nat) (Aa 0%nat 0%nat) (Aa 0%nat 1%nat) (Aa 0%nat 2%nat) (Aa 1%nat 0%nat) (Aa 1%nat 1%nat) (Aa 1%nat 2%nat) (Aa 2%nat 0%nat) (Aa 2%nat 1%nat) (Aa 2%nat 2%nat) (Aa 3%nat 0%nat) (Aa 3%nat 1%nat) (Aa 3%nat 2%nat) (Aa 4%nat 0%nat) (Aa 4%nat 1%nat) (Aa 4%nat 2%nat) (Aa 5%nat 0%nat) (Aa 5%nat 1%nat) (Aa 5%nat 2%nat) (Aa 6%nat 0%nat) (Aa 6%nat 1%nat) (Aa 6%nat 2%nat) (Aa 7%nat 0%nat) (Aa 7%nat 1%nat) (Aa 7%nat 2%nat) (Aa 8%nat 0%nat) (Aa 8%nat 1%nat) (Aa 8%nat 2%nat) (Ab 0%nat 0%nat) (Ab 0%nat 1%nat) (Ab 0%nat 2%nat) (Ab 1%nat 0%nat) (Ab 1%nat 1%nat) (Ab 1%nat 2%nat) (Ab 2%nat 0%nat) (Ab 2%nat 1%nat) (Ab 2%nat 2%nat) (Ab 3%nat 0%nat) (Ab 3%nat 1%nat) (Ab 3%nat 2%nat) (Ab 4%nat 0%nat) (Ab 4%nat 1%nat) (Ab 4%nat 2%nat) (Ab 5%nat 0%nat) (Ab 5%nat 1%nat) (Ab 5%nat 2%nat) (Ab 6%nat 0%nat) (Ab 6%nat 1%nat) (Ab 6%nat 2%nat) (Ab 7%nat 0%nat) (Ab 7%nat 1%nat) (Ab 7%nat 2%nat) (Ab 8%nat 0%nat) (Ab 8%nat 1%nat) (Ab 8%nat 2%nat) (x 0%nat) (x 1%nat) (x 2%nat) (x 3%nat) (x 4%nat) (x 5%nat) (x 6%nat) (x 7%nat) (x 8%nat) (eg 0%nat) (eg 1%nat) (eg 2%nat) (ea 0%nat) (ea 1%nat) (ea 2%nat)
+  | 2 => prop3d_x2 dt (Fa 0%nat 0%nat) (Fa 0%nat 1%nat) (Fa 0%nat 2%nat) (Fa 0%nat 3%nat) (Fa 0%nat 4%nat) (Fa 0%nat 5%nat) (Fa 0%nat 6%nat) (Fa 0%nat 7%nat) (Fa 0%nat 8%nat) (Fa 1%nat 0%nat) (Fa 1%nat 1%nat) (Fa 1%nat 2%nat) (Fa 1%nat 3%nat) (Fa 1%nat 4%nat) (Fa 1%nat 5%nat) (Fa 1%nat 6%nat) (Fa 1%nat 7%nat) (Fa 1%nat 8%nat) (Fa 2%nat 0%nat) (Fa 2%nat 1%nat) (Fa 2%nat 2%nat) (Fa 2%nat 3%nat) (Fa 2%nat 4%nat) (Fa 2%nat 5%nat) (Fa 2%nat 6%nat) (Fa 2%nat 7%nat) (Fa 2%nat 8%nat) (Fa 3%nat 0%nat) (Fa 3%nat 1%nat) (Fa 3%nat 2%nat) (Fa 3%nat 3%nat) (Fa 3%nat 4%nat) (Fa 3%nat 5%nat) (Fa 3%nat 6%nat) (Fa 3%nat 7%nat) (Fa 3%nat 8%nat) (Fa 4%nat 0%nat) (Fa 4%nat 1%nat) (Fa 4%nat 2%nat) (Fa 4%nat 3%nat) (Fa 4%nat 4%nat) (Fa 4%nat 5%nat) (Fa 4%nat 6%nat) (Fa 4%nat 7%nat) (Fa 4%nat 8%nat) (Fa 5%nat 0%nat) (Fa 5%nat 1%nat) (Fa 5%nat 2%nat) (Fa 5%nat 3%nat) (Fa 5%nat 4%nat) (Fa 5%nat 5%nat) (Fa 5%nat 6%nat) (Fa 5%nat 7%nat) (Fa 5%nat 8%nat) (Fa 6%nat 0%nat) (Fa 6%nat 1%nat) (Fa 6%nat 2%nat) (Fa 6%nat 3%nat) (Fa 6%nat 4%nat) (Fa 6%nat 5%nat) (Fa 6%nat 6%nat) (Fa 6%nat 7%nat) (Fa 6%nat 8%nat) (Fa 7%nat 0%nat) (Fa 7%nat 1%nat) (Fa 7%nat 2%nat) (Fa 7%nat 3%nat) (Fa 7%nat 4%nat) (Fa 7%nat 5%nat) (Fa 7%nat 6%nat) (Fa 7%nat 7%nat) (Fa 7%nat 8%nat) (Fa 8%nat 0%nat) (Fa 8%nat 1%nat) (Fa 8%nat 2%nat) (Fa 8%nat 3%nat) (Fa 8%nat 4%nat) (Fa 8%nat 5%nat) (Fa 8%nat 6%nat) (Fa 8%nat 7%nat) (Fa 8%nat 8%nat) (Fb 0%nat 0%nat) (Fb 0%nat 1%nat) (Fb 0%nat 2%nat) (Fb 0%nat 3%nat) (Fb 0%nat 4%nat) (Fb 0%nat 5%nat) (Fb 0%nat 6%nat) (Fb 0%nat 7%nat) (Fb 0%nat 8%nat) (Fb 1%nat 0%nat) (Fb 1%nat 1%nat) (Fb 1%nat 2%nat) (Fb 1%nat 3%nat) (Fb 1%nat 4%nat) (Fb 1%nat 5%nat) (Fb 1%nat 6%nat) (Fb 1%nat 7%nat) (Fb 1%nat 8%nat) (Fb 2%nat 0%nat) (Fb 2%nat 1%nat) (Fb 2%nat 2%nat) (Fb 2%nat 3%nat) (Fb 2%nat 4%nat) (Fb 2%nat 5%nat) (Fb 2%nat 6%nat) (Fb 2%nat 7%nat) (Fb 2%nat 8%nat) (Fb 3%nat 0%nat) (Fb 3%nat 1%nat) (Fb 3%nat 2%nat) (Fb 3%nat 3%nat) (Fb 3%nat 4%nat) (Fb 3%nat 5%nat) (Fb 3%nat 6%nat) (Fb 3%nat 7%nat) (Fb 3%nat 8%nat) (Fb 4%nat 0%nat) (Fb 4%nat 1%nat) (Fb 4%nat 2%nat) (Fb 4%nat 3%nat) (Fb 4%nat 4%nat) (Fb 4%nat 5%nat) (Fb 4%nat 6%nat) (Fb 4%nat 7%nat) (Fb 4%nat 8%nat) (Fb 5%nat 0%nat) (Fb 5%nat 1%nat) (Fb 5%nat 2%nat) (Fb 5%nat 3%nat) (Fb 5%nat 4%nat) (Fb 5%nat 5%nat) (Fb 5%nat 6%nat) (Fb 5%nat 7%nat) (Fb 5%nat 8%nat) (Fb 6%nat 0%nat) (Fb 6%nat 1%nat) (Fb 6%nat 2%nat) (Fb 6%nat 3%nat) (Fb 6%nat 4%nat) (Fb 6%nat 5%nat) (Fb 6%nat 6%nat) (Fb 6%nat 7%nat) (Fb 6%nat 8%nat) (Fb 7%nat 0%nat) (Fb 7%nat 1%nat) (Fb 7%nat 2%nat) (Fb 7%nat 3%nat) (Fb 7%nat 4%nat) (Fb 7%nat 5%nat) (Fb 7%nat 6%nat) (Fb 7%nat 7%nat) (Fb 7%nat 8%nat) (Fb 8%nat 0%nat) (Fb 8%nat 1%nat) (Fb 8%nat 2%nat) (Fb 8%nat 3%nat) (Fb 8%nat 4%nat) (Fb 8%nat 5%nat) (Fb 8%nat 6%nat) (Fb 8%nat 7%nat) (Fb 8%nat 8%nat) (Ga 0%nat 0%nat) (Ga 0%nat 1%nat) (Ga 0%nat 2%nat) (Ga 1%nat 0%nat) (Ga 1%nat 1%nat) (Ga 1%nat 2%nat) (Ga 2%nat 0%nat) (Ga 2%nat 1%nat) (Ga 2%nat 2%nat) (Ga 3%nat 0%nat) (Ga 3%nat 1%nat) (Ga 3%nat 2%nat) (Ga 4%nat 0%nat) (Ga 4%nat 1%nat) (Ga 4%nat 2%nat) (Ga 5%nat 0%nat) (Ga 5%nat 1%nat) (Ga 5%nat 2%nat) (Ga 6%nat 0%nat) (Ga 6%nat 1%nat) (Ga 6%nat 2%nat) (Ga 7%nat 0%nat) (Ga 7%nat 1%nat) (Ga 7%nat 2%nat) (Ga 8%nat 0%nat) (Ga 8%nat 1%nat) (Ga 8%nat 2%nat) (Gb 0%nat 0%nat) (Gb 0%nat 1%nat) (Gb 0%nat 2%nat) (Gb 1%nat 0%nat) (Gb 1%nat 1%nat) (Gb 1%nat 2%nat) (Gb 2%nat 0%nat) (Gb 2%nat 1%nat) (Gb 2%nat 2%nat) (Gb 3%nat 0%nat) (Gb 3%nat 1%nat) (Gb 3%nat 2%nat) (Gb 4%nat 0%nat) (Gb 4%nat 1%nat) (Gb 4%nat 2%nat) (Gb 5%nat 0%nat) (Gb 5%nat 1%nat) (Gb 5%nat 2%nat) (Gb 6%nat 0%nat) (Gb 6%nat 1%nat) (Gb 6%nat 2%nat) (Gb 7%nat 0%nat) (Gb 7%nat 1%nat) (Gb 7%nat 2%nat) (Gb 8%nat 0%nat) (Gb 8%nat 1%nat) (Gb 8%nat 2%nat) (Aa 0%nat 0%nat) (Aa 0%nat 1%nat) (Aa 0%nat 2%nat) (Aa 1%nat 0%nat) (Aa 1%nat 1%nat) (Aa 1%nat 2%nat) (Aa 2%nat 0%nat) (Aa 2%nat 1%nat) (Aa 2%nat 2%nat) (Aa 3%nat 0%nat) (Aa 3%nat 1%nat) (Aa 3%nat 2%nat) (Aa 4%nat 0%nat) (Aa 4%nat 1%nat) (Aa 4%nat 2%nat) (Aa 5%nat 0%nat) (Aa 5%nat 1%nat) (Aa 5%nat 2%nat) (Aa 6%nat 0%nat) (Aa 6%nat 1%nat) (Aa 6%nat 2%nat) (Aa 7%nat 0%nat) (Aa 7%nat 1%nat) (Aa 7%nat 2%nat) (Aa 8%nat 0%nat) (Aa 8%nat 1%nat) (Aa 8%nat 2%nat) (Ab 0%nat 0%nat) (Ab 0%nat 1%nat) (Ab 0%nat 2%nat) (Ab 1%nat 0%nat) (Ab 1%nat 1%nat) (Ab 1%nat 2%nat) (Ab 2%nat 0%nat) (Ab 2%nat 1%nat) (Ab 2%nat 2%nat) (Ab 3%nat 0%nat) (Ab 3%nat 1%nat) (Ab 3%nat 2%nat) (Ab 4%nat 0%nat) (Ab 4%nat 1%nat) (Ab 4%nat 2%nat) (Ab 5%nat 0%nat) (Ab 5%nat 1%nat) (Ab 5%nat 2%nat) (Ab 6%nat 0%nat) (Ab 6%nat 1%nat) (Ab 6%nat 2%nat) (Ab 7%nat 0%nat) (Ab 7%nat 1%nat) (Ab 7%nat 2%nat) (Ab 8%nat 0%nat) (Ab 8%nat 1%nat) (Ab 8%nat 2%nat) (x 0%nat) (x 1%nat) (x 2%nat) (x 3%nat) (x 4%nat) (x 5%nat) (x 6%nat) (x 7%nat) (x 8%nat) (eg 0%nat) (eg 1%nat) (eg 2%nat) (ea 0%nat) (ea 1%nat) (ea 2%nat)
+  | 3 => prop3d_x3 dt (Fa 0%nat 0%nat) (Fa 0%nat 1%nat) (Fa 0%nat 2%nat) (Fa 0%nat 3%nat) (Fa 0%nat 4%nat) (Fa 0%nat 5%nat) (Fa 0%nat 6%nat) (Fa 0%nat 7%nat) (Fa 0%nat 8%nat) (Fa 1%nat 0%nat) (Fa 1%nat 1%nat) (Fa 1%nat 2%nat) (Fa 1%nat 3%nat) (Fa 1%nat 4%nat) (Fa 1%nat 5%nat) (Fa 1%nat 6%nat) (Fa 1%nat 7%nat) (Fa 1%nat 8%nat) (Fa 2%nat 0%nat) (Fa 2%nat 1%nat) (Fa 2%nat 2%nat) (Fa 2%nat 3%nat) (Fa 2%nat 4%nat) (Fa 2%nat 5%nat) (Fa 2%nat 6%nat) (Fa 2%nat 7%nat) (Fa 2%nat 8%nat) (Fa 3%nat 0%nat) (Fa 3%nat 1%nat) (Fa 3%nat 2%nat) (Fa 3%nat 3%nat) (Fa 3%nat 4%nat) (Fa 3%nat 5%nat) (Fa 3%nat 6%nat) (Fa 3%nat 7%nat) (Fa 3%nat 8%nat) (Fa 4%nat 0%nat) (Fa 4%nat 1%nat) (Fa 4%nat 2%nat) (Fa 4%nat 3%nat) (Fa 4%nat 4%nat) (Fa 4%nat 5%nat) (Fa 4%nat 6%nat) (Fa 4%nat 7%nat) (Fa 4%nat 8%nat) (Fa 5%nat 0%nat) (Fa 5%nat 1%nat) (Fa 5%nat 2%nat) (Fa 5%nat 3%nat) (Fa 5%nat 4%nat) (Fa 5%nat 5%nat) (Fa 5%nat 6%nat) (Fa 5%nat 7%nat) (Fa 5%nat 8%nat) (Fa 6%nat 0%nat) (Fa 6%nat 1%nat) (Fa 6%nat 2%nat) (Fa 6%nat 3%nat) (Fa 6%nat 4%nat) (Fa 6%nat 5%nat) (Fa 6%nat 6%nat) (Fa 6%nat 7%nat) (Fa 6%nat 8%nat) (Fa 7%nat 0%nat) (Fa 7%nat 1%nat) (Fa 7%nat 2%nat) (Fa 7%nat 3%nat) (Fa 7%nat 4%nat) (Fa 7%nat 5%nat) (Fa 7%nat 6%nat) (Fa 7%nat 7%nat) (Fa 7%nat 8%nat) (Fa 8%nat 0%nat) (Fa 8%nat 1%nat) (Fa 8%nat 2%nat) (Fa 8%nat 3%nat) (Fa 8%nat 4%nat) (Fa 8%nat 5%nat) (Fa 8%nat 6%nat) (Fa 8%nat 7%nat) (Fa 8%nat 8%nat) (Fb 0%nat 0%nat) (Fb 0%nat 1%nat) (Fb 0%nat 2%nat) (Fb 0%nat 3%nat) (Fb 0%nat 4%nat) (Fb 0%nat 5%nat) (Fb 0%nat 6%nat) (Fb 0%nat 7%nat) (Fb 0%nat 8%nat) (Fb 1%nat 0%nat) (Fb 1%nat 1%nat) (Fb 1%nat 2%nat) (Fb 1%nat 3%nat) (Fb 1%nat 4%nat) (Fb 1%nat 5%nat) (Fb 1%nat 6%nat) (Fb 1%nat 7%nat) (Fb 1%nat 8%nat) (Fb 2%nat 0%nat) (Fb 2%nat 1%nat) (Fb 2%nat 2%nat) (Fb 2%nat 3%nat) (Fb 2%nat 4%nat) (Fb 2%nat 5%nat) (Fb 2%nat 6%nat) (Fb 2%nat 7%nat) (Fb 2%nat 8%nat) (Fb 3%nat 0%nat) (Fb 3%nat 1%nat) (Fb 3%nat 2%nat) (Fb 3%nat 3%nat) (Fb 3%nat 4%nat) (Fb 3%nat 5%nat) (Fb 3%nat 6%nat) (Fb 3%nat 7%nat) (Fb 3%nat 8%nat) (Fb 4%nat 0%nat) (Fb 4%nat 1%nat) (Fb 4%nat 2%nat) (Fb 4%nat 3%nat) (Fb 4%nat 4%nat) (Fb 4%nat 5%nat) (Fb 4%nat 6%nat) (Fb 4%nat 7%nat) (Fb 4%nat 8%nat) (Fb 5%nat 0%nat) (Fb 5%nat 1%nat) (Fb 5%nat 2%nat) (Fb 5%nat 3%nat) (Fb 5%nat 4%nat) (Fb 5%nat 5%nat) (Fb 5%nat 6%nat) (Fb 5%nat 7%nat) (Fb 5%nat 8%nat) (Fb 6%nat 0%nat) (Fb 6%nat 1%nat) (Fb 6%nat 2%nat) (Fb 6%nat 3%nat) (Fb 6%nat 4%nat) (Fb 6%nat 5%nat) (Fb 6%nat 6%nat) (Fb 6%nat 7%nat) (Fb 6%nat 8%nat) (Fb 7%nat 0%nat) (Fb 7%nat 1%nat) (Fb 7%nat 2%nat) (Fb 7%nat 3%nat) (Fb 7%nat 4%nat) (Fb 7%nat 5%nat) (Fb 7%nat 6%nat) (Fb 7%nat 7%nat) (Fb 7%nat 8%nat) (Fb 8%nat 0%nat) (Fb 8%nat 1%nat) (Fb 8%nat 2%nat) (Fb 8%nat 3%nat) (Fb 8%nat 4%nat) (Fb 8%nat 5%nat) (Fb 8%nat 6%nat) (Fb 8%nat 7%nat) (Fb 8%nat 8%nat) (Ga 0%nat 0%nat) (Ga 0%nat 1%nat) (Ga 0%nat 2%nat) (Ga 1%nat 0%nat) (Ga 1%nat 1%nat) (Ga 1%nat 2%nat) (Ga 2%nat 0%nat) (Ga 2%nat 1%nat) (Ga 2%nat 2%nat) (Ga 3%nat 0%nat) (Ga 3%nat 1%nat) (Ga 3%nat 2%nat) (Ga 4%nat 0%nat) (Ga 4%nat 1%nat) (Ga 4%nat 2%nat) (Ga 5%nat 0%nat) (Ga 5%nat 1%nat) (Ga 5%nat 2%nat) (Ga 6%nat 0%nat) (Ga 6%nat 1%nat) (Ga 6%nat 2%nat) (Ga 7%nat 0%nat) (Ga 7%nat 1%nat) (Ga 7%nat 2%nat) (Ga 8%nat 0%nat) (Ga 8%nat 1%nat) (Ga 8%nat 2%nat) (Gb 0%nat 0%nat) (Gb 0%nat 1%nat) (Gb 0%nat 2%nat) (Gb 1%nat 0%nat) (Gb 1%nat 1%nat) (Gb 1%nat 2%nat) (Gb 2%nat 0%nat) (Gb 2%nat 1%nat) (Gb 2%nat 2%nat) (Gb 3%nat 0%nat) (Gb 3%nat 1%nat) (Gb 3%nat 2%nat) (Gb 4%nat 0%nat) (Gb 4%nat 1%nat) (Gb 4%nat 2%nat) (Gb 5%nat 0%nat) (Gb 5%nat 1%nat) (Gb 5%nat 2%nat) (Gb 6%nat 0%nat) (Gb 6%nat 1%nat) (Gb 6%nat 2%nat) (Gb 7%nat 0%nat) (Gb 7%nat 1%nat) (Gb 7%nat 2%nat) (Gb 8%nat 0%nat) (Gb 8%nat 1%nat) (Gb 8%nat 2%nat) (Aa 0%nat 0%nat) (Aa 0%nat 1%nat) (Aa 0%nat 2%nat) (Aa 1%nat 0%nat) (Aa 1%nat 1%nat) (Aa 1%nat 2%nat) (Aa 2%nat 0%nat) (Aa 2%nat 1%nat) (Aa 2%nat 2%nat) (Aa 3%nat 0%nat) (Aa 3%nat 1%nat) (Aa 3%nat 2%nat) (Aa 4%nat 0%nat) (Aa 4%nat 1%nat) (Aa 4%nat 2%nat) (Aa 5%nat 0%nat) (Aa 5%nat 1%nat) (Aa 5%nat 2%nat) (Aa 6%nat 0%nat) (Aa 6%nat 1%nat) (Aa 6%nat 2%nat) (Aa 7%nat 0%nat) (Aa 7%nat 1%nat) (Aa 7%nat 2%nat) (Aa 8%nat 0%nat) (Aa 8%nat 1%nat) (Aa 8%nat 2%nat) (Ab 0%nat 0%nat) (Ab 0%nat 1%nat) (Ab 0%nat 2%nat) (Ab 1%nat 0%nat) (Ab 1%nat 1%nat) (Ab 1%nat 2%nat) (Ab 2%nat 0%nat) (Ab 2%nat 1%nat) (Ab 2%nat 2%nat) (Ab 3%nat 0%nat) (Ab 3%nat 1%nat) (Ab 3%nat 2%nat) (Ab 4%nat 0%nat) (Ab 4%nat 1%nat) (Ab 4%nat 2%nat) (Ab 5%nat 0%nat) (Ab 5%nat 1%nat) (Ab 5%nat 2%nat) (Ab 6%nat 0%nat) (Ab 6%nat 1%nat) (Ab 6%nat 2%nat) (Ab 7%nat 0%nat) (Ab 7%nat 1%nat) (Ab 7%nat 2%nat) (Ab 8%nat 0%nat) (Ab 8%nat 1%nat) (Ab 8%nat 2%nat) (x 0%nat) (x 1%nat) (x 2%nat) (x 3%nat) (x 4%nat) (x 5%nat) (x 6%nat) (x 7%nat) (x 8%nat) (eg 0%nat) (eg 1%nat) (eg 2%nat) (ea 0%nat) (ea 1%nat) (ea 2%nat)
+  | 4 => prop3d_x4 dt (Fa 0%nat 0%nat) (Fa 0%nat 1%nat) (Fa 0%nat 2%nat) (Fa 0%nat 3%nat) (Fa 0%nat 4%nat) (Fa 0%nat 5%nat) (Fa 0%nat 6%nat) (Fa 0%nat 7%nat) (Fa 0%nat 8%nat) (Fa 1%nat 0%nat) (Fa 1%nat 1%nat) (Fa 1%nat 2%nat) (Fa 1%nat 3%nat) (Fa 1%nat 4%nat) (Fa 1%nat 5%nat) (Fa 1%nat 6%nat) (Fa 1%nat 7%nat) (Fa 1%nat 8%nat) (Fa 2%nat 0%nat) (Fa 2%nat 1%nat) (Fa 2%nat 2%nat) (Fa 2%nat 3%nat) (Fa 2%nat 4%nat) (Fa 2%nat 5%nat) (Fa 2%nat 6%nat) (Fa 2%nat 7%nat) (Fa 2%nat 8%nat) (Fa 3%nat 0%nat) (Fa 3%nat 1%nat) (Fa 3%nat 2%nat) (Fa 3%nat 3%nat) (Fa 3%nat 4%nat) (Fa 3%nat 5%nat) (Fa 3%nat 6%nat) (Fa 3%nat 7%nat) (Fa 3%nat 8%nat) (Fa 4%nat 0%nat) (Fa 4%nat 1%nat) (Fa 4%nat 2%nat) (Fa 4%nat 3%nat) (Fa 4%nat 4%nat) (Fa 4%nat 5%nat) (Fa 4%nat 6%nat) (Fa 4%nat 7%nat) (Fa 4%nat 8%nat) (Fa 5%nat 0%nat) (Fa 5%nat 1%nat) (Fa 5%nat 2%nat) (Fa 5%nat 3%nat) (Fa 5%nat 4%nat) (Fa 5%nat 5%nat) (Fa 5%nat 6%nat) (Fa 5%nat 7%nat) (Fa 5%nat 8%nat) (Fa 6%nat 0%nat) (Fa 6%nat 1%nat) (Fa 6%nat 2%nat) (Fa 6%nat 3%nat) (Fa 6%nat 4%nat) (Fa 6%nat 5%nat) (Fa 6%nat 6%nat) (Fa 6%nat 7%nat) (Fa 6%nat 8%nat) (Fa 7%nat 0%nat) (Fa 7%nat 1%nat) (Fa 7%nat 2%nat) (Fa 7%nat 3%nat) (Fa 7%nat 4%nat) (Fa 7%nat 5%nat) (Fa 7%nat 6%nat) (Fa 7%nat 7%nat) (Fa 7%nat 8%nat) (Fa 8%nat 0%nat) (Fa 8%nat 1%nat) (Fa 8%nat 2%nat) (Fa 8%nat 3%nat) (Fa 8%nat 4%nat) (Fa 8%nat 5%nat) (Fa 8%nat 6%nat) (Fa 8%nat 7%nat) (Fa 8%nat 8%nat) (Fb 0%nat 0%nat) (Fb 0%nat 1%nat) (Fb 0%nat 2%nat) (Fb 0%nat 3%nat) (Fb 0%nat 4%nat) (Fb 0%nat 5%nat) (Fb 0%nat 6%nat) (Fb 0%nat 7%nat) (Fb 0%nat 8%nat) (Fb 1%nat 0%nat) (Fb 1%nat 1%nat) (Fb 1%nat 2%nat) (Fb 1%nat 3%nat) (Fb 1%nat 4%nat) (Fb 1%nat 5%nat) (Fb 1%nat 6%nat) (Fb 1%nat 7%nat) (Fb 1%nat 8%nat) (Fb 2%nat 0%nat) (Fb 2%nat 1%nat) (Fb 2%nat 2%nat) (Fb 2%nat 3%nat) (Fb 2%nat 4%nat) (Fb 2%nat 5%nat) (Fb 2%nat 6%nat) (Fb 2%nat 7%nat) (Fb 2%nat 8%nat) (Fb 3%nat 0%nat) (Fb 3%nat 1%nat) (Fb 3%nat 2%nat) (Fb 3%nat 3%nat) (Fb 3%nat 4%nat) (Fb 3%nat 5%nat) (Fb 3%nat 6%nat) (Fb 3%nat 7%nat) (Fb 3%nat 8%nat) (Fb 4%nat 0%nat) (Fb 4%nat 1%nat) (Fb 4%nat 2%nat) (Fb 4%nat 3%nat) (Fb 4%nat 4%nat) (Fb 4%nat 5%nat) (Fb 4%nat 6%nat) (Fb 4%nat 7%nat) (Fb 4%nat 8%nat) (Fb 5%nat 0%nat) (Fb 5%nat 1%nat) (Fb 5%nat 2%nat) (Fb 5%nat 3%nat) (Fb 5%nat 4%nat) (Fb 5%nat 5%nat) (Fb 5%nat 6%nat) (Fb 5%nat 7%nat) (Fb 5%nat 8%nat) (Fb 6%nat 0%nat) (Fb 6%nat 1%nat) (Fb 6%nat 2%nat) (Fb 6%nat 3%nat) (Fb 6%nat 4%nat) (Fb 6%nat 5%nat) (Fb 6%nat 6%nat) (Fb 6%nat 7%nat) (Fb 6%nat 8%nat) (Fb 7%nat 0%nat) (Fb 7%nat 1%nat) (Fb 7%nat 2%nat) (Fb 7%nat 3%nat) (Fb 7%nat 4%nat) (Fb 7%nat 5%nat) (Fb 7%nat 6%nat) (Fb 7%nat 7%nat) (Fb 7%nat 8%nat) (Fb 8%nat 0%nat) (Fb 8%nat 1%nat) (Fb 8%nat 2%nat) (Fb 8%nat 3%nat) (Fb 8%nat 4%nat) (Fb 8%nat 5%nat) (Fb 8%nat 6%nat) (Fb 8%nat 7%nat) (Fb 8%nat 8%nat) (Ga 0%nat 0%nat) (Ga 0%nat 1%nat) (Ga 0%nat 2%nat) (Ga 1%nat 0%nat) (Ga 1%nat 1%nat) (Ga 1%nat 2%nat) (Ga 2%nat 0%nat) (Ga 2%nat 1%nat) (Ga 2%nat 2%nat) (Ga 3%nat 0%nat) (Ga 3%nat 1%nat) (Ga 3%nat 2%nat) (Ga 4%nat 0%nat) (Ga 4%nat 1%nat) (Ga 4%nat 2%nat) (Ga 5%nat 0%nat) (Ga 5%nat 1%nat) (Ga 5%nat 2%nat) (Ga 6%nat 0%nat) (Ga 6%nat 1%nat) (Ga 6%nat 2%nat) (Ga 7%nat 0%nat) (Ga 7%nat 1%nat) (Ga 7%nat 2%nat) (Ga 8%nat 0%nat) (Ga 8%nat 1%nat) (Ga 8%nat 2%nat) (Gb 0%nat 0%nat) (Gb 0%nat 1%nat) (Gb 0%nat 2%nat) (Gb 1%nat 0%nat) (Gb 1%nat 1%nat) (Gb 1%nat 2%nat) (Gb 2%nat 0%nat) (Gb 2%nat 1%nat) (Gb 2%nat 2%nat) (Gb 3%nat 0%nat) (Gb 3%nat 1%nat) (Gb 3%nat 2%nat) (Gb 4%nat 0%nat) (Gb 4%nat 1%nat) (Gb 4%nat 2%nat) (Gb 5%nat 0%nat) (Gb 5%nat 1%nat) (Gb 5%nat 2%nat) (Gb 6%nat 0%nat) (Gb 6%nat 1%nat) (Gb 6%nat 2%nat) (Gb 7%nat 0%nat) (Gb 7%nat 1%nat) (Gb 7%nat 2%nat) (Gb 8%nat 0%nat) (Gb 8%nat 1%nat) (Gb 8%nat 2%nat) (Aa 0%nat 0%nat) (Aa 0%nat 1%nat) (Aa 0%nat 2%nat) (Aa 1%nat 0%nat) (Aa 1%nat 1%nat) (Aa 1%nat 2%nat) (Aa 2%nat 0%nat) (Aa 2%nat 1%nat) (Aa 2%nat 2%nat) (Aa 3%nat 0%nat) (Aa 3%nat 1%nat) (Aa 3%nat 2%nat) (Aa 4%nat 0%nat) (Aa 4%nat 1%nat) (Aa 4%nat 2%nat) (Aa 5%nat 0%nat) (Aa 5%nat 1%nat) (Aa 5%nat 2%nat) (Aa 6%nat 0%nat) (Aa 6%nat 1%nat) (Aa 6%nat 2%nat) (Aa 7%nat 0%nat) (Aa 7%nat 1%nat) (Aa 7%nat 2%nat) (Aa 8%nat 0%nat) (Aa 8%nat 1%nat) (Aa 8%nat 2%nat) (Ab 0%nat 0%nat) (Ab 0%nat 1%nat) (Ab 0%nat 2%nat) (Ab 1%nat 0%nat) (Ab 1%nat 1%nat) (Ab 1%nat 2%nat) (Ab 2%nat 0%nat) (Ab 2%nat 1%nat) (Ab 2%nat 2%nat) (Ab 3%nat 0%nat) (Ab 3%nat 1%nat) (Ab 3%nat 2%nat) (Ab 4%nat 0%nat) (Ab 4%nat 1%nat) (Ab 4%nat 2%nat) (Ab 5%nat 0%nat) (Ab 5%nat 1%nat) (Ab 5%nat 2%nat) (Ab 6%nat 0%nat) (Ab 6%nat 1%nat) (Ab 6%nat 2%nat) (Ab 7%nat 0%nat) (Ab 7%nat 1%nat) (Ab 7%nat 2%nat) (Ab 8%nat 0%nat) (Ab 8%nat 1%nat) (Ab 8%nat 2%nat) (x 0%nat) (x 1%nat) (x 2%nat) (x 3%nat) (x 4%nat) (x 5%nat) (x 6%nat) (x 7%nat) (x 8%nat) (eg 0%nat) (eg 1%nat) (eg 2%nat) (ea 0%nat) (ea 1%nat) (ea 2%nat)
+  | 5 => prop3d_x5 dt (Fa 0%nat 0%nat) (Fa 0%nat 1%nat) (Fa 0%nat 2%nat) (Fa 0%nat 3%nat) (Fa 0%nat 4%nat) (Fa 0%nat 5%nat) (Fa 0%nat 6%nat) (Fa 0%nat 7%nat) (Fa 0%nat 8%nat) (Fa 1%nat 0%nat) (Fa 1%nat 1%nat) (Fa 1%nat 2%nat) (Fa 1%nat 3%nat) (Fa 1%nat 4%nat) (Fa 1%nat 5%nat) (Fa 1%nat 6%nat) (Fa 1%nat 7%nat) (Fa 1%nat 8%nat) (Fa 2%nat 0%nat) (Fa 2%nat 1%nat) (Fa 2%nat 2%nat) (Fa 2%nat 3%nat) (Fa 2%nat 4%nat) (Fa 2%nat 5%nat) (Fa 2%nat 6%nat) (Fa 2%nat 7%nat) (Fa 2%nat 8%nat) (Fa 3%nat 0%nat) (Fa 3%nat 1%nat) (Fa 3%nat 2%nat) (Fa 3%nat 3%nat) (Fa 3%nat 4%nat) (Fa 3%nat 5%nat) (Fa 3%nat 6%nat) (Fa 3%nat 7%nat) (Fa 3%nat 8%nat) (Fa 4%nat 0%nat) (Fa 4%nat 1%nat) (Fa 4%nat 2%nat) (Fa 4%nat 3%nat) (Fa 4%nat 4%nat) (Fa 4%nat 5%nat) (Fa 4%nat 6%nat) (Fa 4%nat 7%nat) (Fa 4%nat 8%nat) (Fa 5%nat 0%nat) (Fa 5%nat 1%nat) (Fa 5%nat 2%nat) (Fa 5%nat 3%nat) (Fa 5%nat 4%nat) (Fa 5%nat 5%nat) (Fa 5%nat 6%nat) (Fa 5%nat 7%nat) (Fa 5%nat 8%nat) (Fa 6%nat 0%nat) (Fa 6%nat 1%nat) (Fa 6%nat 2%nat) (Fa 6%nat 3%nat) (Fa 6%nat 4%nat) (Fa 6%nat 5%nat) (Fa 6%nat 6%nat) (Fa 6%nat 7%nat) (Fa 6%nat 8%nat) (Fa 7%nat 0%nat) (Fa 7%nat 1%nat) (Fa 7%nat 2%nat) (Fa 7%nat 3%nat) (Fa 7%nat 4%nat) (Fa 7%nat 5%nat) (Fa 7%nat 6%nat) (Fa 7%nat 7%nat) (Fa 7%nat 8%nat) (Fa 8%nat 0%nat) (Fa 8%nat 1%nat) (Fa 8%nat 2%nat) (Fa 8%nat 3%nat) (Fa 8%nat 4%nat) (Fa 8%nat 5%nat) (Fa 8%nat 6%nat) (Fa 8%nat 7%nat) (Fa 8%nat 8%nat) (Fb 0%nat 0%nat) (Fb 0%nat 1%nat) (Fb 0%nat 2%nat) (Fb 0%nat 3%nat) (Fb 0%nat 4%nat) (Fb 0%nat 5%nat) (Fb 0%nat 6%nat) (Fb 0%nat 7%nat) (Fb 0%nat 8%nat) (Fb 1%nat 0%nat) (Fb 1%nat 1%nat) (Fb 1%nat 2%nat) (Fb 1%nat 3%nat) (Fb 1%nat 4%nat) (Fb 1%nat 5%nat) (Fb 1%nat 6%nat) (Fb 1%nat 7%nat) (Fb 1%nat 8%nat) (Fb 2%nat 0%nat) (Fb 2%nat 1%nat) (Fb 2%nat 2%nat) (Fb 2%nat 3%nat) (Fb 2%nat 4%nat) (Fb 2%nat 5%nat) (Fb 2%nat 6%nat) (Fb 2%nat 7%nat) (Fb 2%nat 8%nat) (Fb 3%nat 0%nat) (Fb 3%nat 1%nat) (Fb 3%nat 2%nat) (Fb 3%nat 3%nat) (Fb 3%nat 4%nat) (Fb 3%nat 5%nat) (Fb 3%nat 6%nat) (Fb 3%nat 7%nat) (Fb 3%nat 8%nat) (Fb 4%nat 0%nat) (Fb 4%nat 1%nat) (Fb 4%nat 2%nat) (Fb 4%nat 3%nat) (Fb 4%nat 4%nat) (Fb 4%nat 5%nat) (Fb 4%nat 6%nat) (Fb 4%nat 7%nat) (Fb 4%nat 8%nat) (Fb 5%nat 0%nat) (Fb 5%nat 1%nat) (Fb 5%nat 2%nat) (Fb 5%nat 3%nat) (Fb 5%nat 4%nat) (Fb 5%nat 5%nat) (Fb 5%nat 6%nat) (Fb 5%nat 7%nat) (Fb 5%nat 8%nat) (Fb 6%nat 0%nat) (Fb 6%nat 1%nat) (Fb 6%nat 2%nat) (Fb 6%nat 3%nat) (Fb 6%nat 4%nat) (Fb 6%nat 5%nat) (Fb 6%nat 6%nat) (Fb 6%nat 7%nat) (Fb 6%nat 8%nat) (Fb 7%nat 0%nat) (Fb 7%nat 1%nat) (Fb 7%nat 2%nat) (Fb 7%nat 3%nat) (Fb 7%nat 4%nat) (Fb 7%nat 5%nat) (Fb 7%nat 6%nat) (Fb 7%nat 7%nat) (Fb 7%nat 8%nat) (Fb 8%nat 0%nat) (Fb 8%nat 1%nat) (Fb 8%nat 2%nat) (Fb 8%nat 3%nat) (Fb 8%nat 4%nat) (Fb 8%nat 5%nat) (Fb 8%nat 6%nat) (Fb 8%nat 7%nat) (Fb 8%nat 8%nat) (Ga 0%nat 0%nat) (Ga 0%nat 1%nat) (Ga 0%nat 2%nat) (Ga 1%nat 0%nat) (Ga 1%nat 1%nat) (Ga 1%nat 2%nat) (Ga 2%nat 0%nat) (Ga 2%nat 1%nat) (Ga 2%nat 2%nat) (Ga 3%nat 0%nat) (Ga 3%nat 1%nat) (Ga 3%nat 2%nat) (Ga 4%nat 0%nat) (Ga 4%nat 1%nat) (Ga 4%nat 2%nat) (Ga 5%nat 0%nat) (Ga 5%nat 1%nat) (Ga 5%nat 2%nat) (Ga 6%nat 0%nat) (Ga 6%nat 1%nat) (Ga 6%nat 2%nat) (Ga 7%nat 0%nat) (Ga 7%nat 1%nat) (Ga 7%nat 2%nat) (Ga 8%nat 0%nat) (Ga 8%nat 1%nat) (Ga 8%nat 2%nat) (Gb 0%nat 0%nat) (Gb 0%nat 1%nat) (Gb 0%nat 2%nat) (Gb 1%nat 0%nat) (Gb 1%nat 1%nat) (Gb 1%nat 2%nat) (Gb 2%nat 0%nat) (Gb 2%nat 1%nat) (Gb 2%nat 2%nat) (Gb 3%nat 0%nat) (Gb 3%nat 1%nat) (Gb 3%nat 2%nat) (Gb 4%nat 0%nat) (Gb 4%nat 1%nat) (Gb 4%nat 2%nat) (Gb 5%nat 0%nat) (Gb 5%nat 1%nat) (Gb 5%nat 2%nat) (Gb 6%nat 0%nat) (Gb 6%nat 1%nat) (Gb 6%nat 2%nat) (Gb 7%nat 0%nat) (Gb 7%nat 1%nat) (Gb 7%nat 2%nat) (Gb 8%nat 0%nat) (Gb 8%nat 1%nat) (Gb 8%nat 2%nat) (Aa 0%nat 0%nat) (Aa 0%nat 1%nat) (Aa 0%nat 2%nat) (Aa 1%nat 0%nat) (Aa 1%nat 1%nat) (Aa 1%nat 2%nat) (Aa 2%nat 0%nat) (Aa 2%nat 1%nat) (Aa 2%nat 2%nat) (Aa 3%nat 0%nat) (Aa 3%nat 1%nat) (Aa 3%nat 2%nat) (Aa 4%nat 0%nat) (Aa 4%nat 1%nat) (Aa 4%nat 2%nat) (Aa 5%nat 0%nat) (Aa 5%nat 1%nat) (Aa 5%nat 2%nat) (Aa 6%nat 0%nat) (Aa 6%nat 1%nat) (Aa 6%nat 2%nat) (Aa 7%nat 0%nat) (Aa 7%nat 1%nat) (Aa 7%nat 2%nat) (Aa 8%nat 0%nat) (Aa 8%nat 1%nat) (Aa 8%nat 2%nat) (Ab 0%nat 0%nat) (Ab 0%nat 1%nat) (Ab 0%nat 2%nat) (Ab 1%nat 0%nat) (Ab 1%nat 1%nat) (Ab 1%nat 2%nat) (Ab 2%nat 0%nat) (Ab 2%nat 1%nat) (Ab 2%nat 2%nat) (Ab 3%nat 0%nat) (Ab 3%nat 1%nat) (Ab 3%nat 2%nat) (Ab 4%nat 0%nat) (Ab 4%nat 1%nat) (Ab 4%nat 2%nat) (Ab 5%nat 0%nat) (Ab 5%nat 1%nat) (Ab 5%nat 2%nat) (Ab 6%nat 0%nat) (Ab 6%nat 1%nat) (Ab 6%nat 2%nat) (Ab 7%nat 0%nat) (Ab 7%nat 1%nat) (Ab 7%nat 2%nat) (Ab 8%nat 0%nat) (Ab 8%nat 1%nat) (Ab 8%nat 2%nat) (x 0%nat) (x 1%nat) (x 2%nat) (x 3%nat) (x 4%nat) (x 5%nat) (x 6%nat) (x 7%nat) (x 8%nat) (eg 0%nat) (eg 1%nat) (eg 2%nat) (ea 0%nat) (ea 1%nat) (ea 2%nat)
+  | 6 => prop3d_x6 dt (Fa 0%nat 0%nat) (Fa 0%nat 1%nat) (Fa 0%nat 2%nat) (Fa 0%nat 3%nat) (Fa 0%nat 4%nat) (Fa 0%nat 5%nat) (Fa 0%nat 6%nat) (Fa 0%nat 7%nat) (Fa 0%nat 8%nat) (Fa 1%nat 0%nat) (Fa 1%nat 1%nat) (Fa 1%nat 2%nat) (Fa 1%nat 3%nat) (Fa 1%nat 4%nat) (Fa 1%nat 5%nat) (Fa 1%nat 6%nat) (Fa 1%nat 7%nat) (Fa 1%nat 8%nat) (Fa 2%nat 0%nat) (Fa 2%nat 1%nat) (Fa 2%nat 2%nat) (Fa 2%nat 3%nat) (Fa 2%nat 4%nat) (Fa 2%nat 5%nat) (Fa 2%nat 6%nat) (Fa 2%nat 7%nat) (Fa 2%nat 8%nat) (Fa 3%nat 0%nat) (Fa 3%nat 1%nat) (Fa 3%nat 2%nat) (Fa 3%nat 3%nat) (Fa 3%nat 4%nat) (Fa 3%nat 5%nat) (Fa 3%nat 6%nat) (Fa 3%nat 7%nat) (Fa 3%nat 8%nat) (Fa 4%nat 0%nat) (Fa 4%nat 1%nat) (Fa 4%nat 2%nat) (Fa 4%nat 3%nat) (Fa 4%nat 4%nat) (Fa 4%nat 5%nat) (Fa 4%nat 6%nat) (Fa 4%nat 7%nat) (Fa 4%nat 8%nat) (Fa 5%nat 0%nat) (Fa 5%nat 1%nat) (Fa 5%nat 2%nat) (Fa 5%nat 3%nat) (Fa 5%nat 4%nat) (Fa 5%nat 5%nat) (Fa 5%nat 6%nat) (Fa 5%nat 7%nat) (Fa 5%nat 8%nat) (Fa 6%nat 0%nat) (Fa 6%nat 1%nat) (Fa 6%nat 2%nat) (Fa 6%nat 3%nat) (Fa 6%nat 4%nat) (Fa 6%nat 5%nat) (Fa 6%nat 6%nat) (Fa 6%nat 7%nat) (Fa 6%nat 8%nat) (Fa 7%nat 0%nat) (Fa 7%nat 1%nat) (Fa 7%nat 2%nat) (Fa 7%nat 3%nat) (Fa 7%nat 4%nat) (Fa 7%nat 5%nat) (Fa 7%nat 6%nat) (Fa 7%nat 7%nat) (Fa 7%nat 8%nat) (Fa 8%nat 0%nat) (Fa 8%nat 1%nat) (Fa 8%nat 2%nat) (Fa 8%nat 3%nat) (Fa 8%nat 4%nat) (Fa 8%nat 5%nat) (Fa 8%nat 6%nat) (Fa 8%nat 7%nat) (Fa 8%nat 8%nat) (Fb 0%nat 0%nat) (Fb 0%nat 1%nat) (Fb 0%nat 2%nat) (Fb 0%nat 3%nat) (Fb 0%nat 4%nat) (Fb 0%nat 5%nat) (Fb 0%nat 6%nat) (Fb 0%nat 7%nat) (Fb 0%nat 8%nat) (Fb 1%nat 0%nat) (Fb 1%nat 1%nat) (Fb 1%nat 2%nat) (Fb 1%nat 3%nat) (Fb 1%nat 4%nat) (Fb 1%nat 5%nat) (Fb 1%nat 6%nat) (Fb 1%nat 7%nat) (Fb 1%nat 8%nat) (Fb 2%nat 0%nat) (Fb 2%nat 1%nat) (Fb 2%nat 2%nat) (Fb 2%nat 3%nat) (Fb 2%nat 4%nat) (Fb 2%nat 5%nat) (Fb 2%nat 6%nat) (Fb 2%nat 7%nat) (Fb 2%nat 8%nat) (Fb 3%nat 0%nat) (Fb 3%nat 1%nat) (Fb 3%nat 2%nat) (Fb 3%nat 3%nat) (Fb 3%nat 4%nat) (Fb 3%nat 5%nat) (Fb 3%nat 6%nat) (Fb 3%nat 7%nat) (Fb 3%nat 8%nat) (Fb 4%nat 0%nat) (Fb 4%nat 1%nat) (Fb 4%nat 2%nat) (Fb 4%nat 3%nat) (Fb 4%nat 4%nat) (Fb 4%nat 5%nat) (Fb 4%nat 6%nat) (Fb 4%nat 7%nat) (Fb 4%nat 8%nat) (Fb 5%nat 0%nat) (Fb 5%nat 1%nat) (Fb 5%nat 2%nat) (Fb 5%nat 3%nat) (Fb 5%nat 4%nat) (Fb 5%nat 5%nat) (Fb 5%nat 6%nat) (Fb 5%nat 7%nat) (Fb 5%nat 8%nat) (Fb 6%nat 0%nat) (Fb 6%nat 1%nat) (Fb 6%nat 2%nat) (Fb 6%nat 3%nat) (Fb 6%nat 4%nat) (Fb 6%nat 5%nat) (Fb 6%nat 6%nat) (Fb 6%nat 7%nat) (Fb 6%nat 8%nat) (Fb 7%nat 0%nat) (Fb 7%nat 1%nat) (Fb 7%nat 2%nat) (Fb 7%nat 3%nat) (Fb 7%nat 4%nat) (Fb 7%nat 5%nat) (Fb 7%nat 6%nat) (Fb 7%nat 7%nat) (Fb 7%nat 8%nat) (Fb 8%nat 0%nat) (Fb 8%nat 1%nat) (Fb 8%nat 2%nat) (Fb 8%nat 3%nat) (Fb 8%nat 4%nat) (Fb 8%nat 5%nat) (Fb 8%nat 6%nat) (Fb 8%nat 7%nat) (Fb 8%nat 8%nat) (Ga 0%nat 0%nat) (Ga 0%nat 1%nat) (Ga 0%nat 2%nat) (Ga 1%nat 0%nat) (Ga 1%nat 1%nat) (Ga 1%nat 2%nat) (Ga 2%nat 0%nat) (Ga 2%nat 1%nat) (Ga 2%nat 2%nat) (Ga 3%nat 0%nat) (Ga 3%nat 1%nat) (Ga 3%nat 2%nat) (Ga 4%nat 0%nat) (Ga 4%nat 1%nat) (Ga 4%nat 2%nat) (Ga 5%nat 0%nat) (Ga 5%nat 1%nat) (Ga 5%nat 2%nat) (Ga 6%nat 0%nat) (Ga 6%nat 1%nat) (Ga 6%nat 2%nat) (Ga 7%nat 0%nat) (Ga 7%nat 1%nat) (Ga 7%nat 2%nat) (Ga 8%nat 0%nat) (Ga 8%nat 1%nat) (Ga 8%nat 2%nat) (Gb 0%nat 0%nat) (Gb 0%nat 1%nat) (Gb 0%nat 2%nat) (Gb 1%nat 0%nat) (Gb 1%nat 1%nat) (Gb 1%nat 2%nat) (Gb 2%nat 0%nat) (Gb 2%nat 1%nat) (Gb 2%nat 2%nat) (Gb 3%nat 0%nat) (Gb 3%nat 1%nat) (Gb 3%nat 2%nat) (Gb 4%nat 0%nat) (Gb 4%nat 1%nat) (Gb 4%nat 2%nat) (Gb 5%nat 0%nat) (Gb 5%nat 1%nat) (Gb 5%nat 2%nat) (Gb 6%nat 0%nat) (Gb 6%nat 1%nat) (Gb 6%nat 2%nat) (Gb 7%nat 0%nat) (Gb 7%nat 1%nat) (Gb 7%nat 2%nat) (Gb 8%nat 0%nat) (Gb 8%nat 1%nat) (Gb 8%nat 2%nat) (Aa 0%nat 0%nat) (Aa 0%nat 1%nat) (Aa 0%nat 2%nat) (Aa 1%nat 0%nat) (Aa 1%nat 1%nat) (Aa 1%nat 2%nat) (Aa 2%nat 0%nat) (Aa 2%nat 1%nat) (Aa 2%nat 2%nat) (Aa 3%nat 0%nat) (Aa 3%nat 1%nat) (Aa 3%nat 2%nat) (Aa 4%nat 0%nat) (Aa 4%nat 1%nat) (Aa 4%nat 2%nat) (Aa 5%nat 0%nat) (Aa 5%nat 1%nat) (Aa 5%nat 2%nat) (Aa 6%nat 0%nat) (Aa 6%nat 1%nat) (Aa 6%nat 2%nat) (Aa 7%nat 0%nat) (Aa 7%nat 1%nat) (Aa 7%nat 2%nat) (Aa 8%nat 0%nat) (Aa 8%nat 1%nat) (Aa 8%nat 2%nat) (Ab 0%nat 0%nat) (Ab 0%nat 1%nat) (Ab 0%nat 2%nat) (Ab 1%nat 0%nat) (Ab 1%nat 1%nat) (Ab 1%nat 2%nat) (Ab 2%nat 0%nat) (Ab 2%nat 1%nat) (Ab 2%nat 2%nat) (Ab 3%nat 0%nat) (Ab 3%nat 1%nat) (Ab 3%nat 2%nat) (Ab 4%nat 0%nat) (Ab 4%nat 1%nat) (Ab 4%nat 2%nat) (Ab 5%nat 0%nat) (Ab 5%nat 1%nat) (Ab 5%nat 2%nat) (Ab 6%nat 0%nat) (Ab 6%nat 1%nat) (Ab 6%nat 2%nat) (Ab 7%nat 0%nat) (Ab 7%nat 1%nat) (Ab 7%nat 2%nat) (Ab 8%nat 0%nat) (Ab 8%nat 1%nat) (Ab 8%nat 2%nat) (x 0%nat) (x 1%nat) (x 2%nat) (x 3%nat) (x 4%nat) (x 5%nat) (x 6%nat) (x 7%nat) (x 8%nat) (eg 0%nat) (eg 1%nat) (eg 2%nat) (ea 0%nat) (ea 1%nat) (ea 2%nat)
+  | 7 => prop3d_x7 dt (Fa 0%nat 0%nat) (Fa 0%nat 1%nat) (Fa 0%nat 2%nat) (Fa 0%nat 3%nat) (Fa 0%nat 4%nat) (Fa 0%nat 5%nat) (Fa 0%nat 6%nat) (Fa 0%nat 7%nat) (Fa 0%nat 8%nat) (Fa 1%nat 0%nat) (Fa 1%nat 1%nat) (Fa 1%nat 2%nat) (Fa 1%nat 3%nat) (Fa 1%nat 4%nat) (Fa 1%nat 5%nat) (Fa 1%nat 6%nat) (Fa 1%nat 7%nat) (Fa 1%nat 8%nat) (Fa 2%nat 0%nat) (Fa 2%nat 1%nat) (Fa 2%nat 2%nat) (Fa 2%nat 3%nat) (Fa 2%nat 4%nat) (Fa 2%nat 5%nat) (Fa 2%nat 6%nat) (Fa 2%nat 7%nat) (Fa 2%nat 8%nat) (Fa 3%nat 0%nat) (Fa 3%nat 1%nat) (Fa 3%nat 2%nat) (Fa 3%nat 3%nat) (Fa 3%nat 4%nat) (Fa 3%nat 5%nat) (Fa 3%nat 6%nat) (Fa 3%nat 7%nat) (Fa 3%nat 8%nat) (Fa 4%nat 0%nat) (Fa 4%nat 1%nat) (Fa 4%nat 2%nat) (Fa 4%nat 3%nat) (Fa 4%nat 4%nat) (Fa 4%nat 5%nat) (Fa 4%nat 6%nat) (Fa 4%nat 7%nat) (Fa 4%nat 8%nat) (Fa 5%nat 0%nat) (Fa 5%nat 1%nat) (Fa 5%nat 2%nat) (Fa 5%nat 3%nat) (Fa 5%nat 4%nat) (Fa 5%nat 5%nat) (Fa 5%nat 6%nat) (Fa 5%nat 7%nat) (Fa 5%nat 8%nat) (Fa 6%nat 0%nat) (Fa 6%nat 1%nat) (Fa 6%nat 2%nat) (Fa 6%nat 3%nat) (Fa 6%nat 4%nat) (Fa 6%nat 5%nat) (Fa 6%nat 6%nat) (Fa 6%nat 7%nat) (Fa 6%nat 8%nat) (Fa 7%nat 0%nat) (Fa 7%nat 1%nat) (Fa 7%nat 2%nat) (Fa 7%nat 3%nat) (Fa 7%nat 4%nat) (Fa 7%nat 5%nat) (Fa 7%nat 6%nat) (Fa 7%nat 7%nat) (Fa 7%nat 8%nat) (Fa 8%nat 0%nat) (Fa 8%nat 1%nat) (Fa 8%nat 2%nat) (Fa 8%nat 3%nat) (Fa 8%nat 4%nat) (Fa 8%nat 5%nat) (Fa 8%nat 6%nat) (Fa 8%nat 7%nat) (Fa 8%nat 8%nat) (Fb 0%nat 0%nat) (Fb 0%nat 1%nat) (Fb 0%nat 2%nat) (Fb 0%nat 3%nat) (Fb 0%nat 4%nat) (Fb 0%nat 5%nat) (Fb 0%nat 6%nat) (Fb 0%nat 7%nat) (Fb 0%nat 8%nat) (Fb 1%nat 0%nat) (Fb 1%nat 1%nat) (Fb 1%nat 2%nat) (Fb 1%nat 3%nat) (Fb 1%nat 4%nat) (Fb 1%nat 5%nat) (Fb 1%nat 6%nat) (Fb 1%nat 7%nat) (Fb 1%nat 8%nat) (Fb 2%nat 0%nat) (Fb 2%nat 1%nat) (Fb 2%nat 2%nat) (Fb 2%nat 3%nat) (Fb 2%nat 4%nat) (Fb 2%nat 5%nat) (Fb 2%nat 6%nat) (Fb 2%nat 7%nat) (Fb 2%nat 8%nat) (Fb 3%nat 0%nat) (Fb 3%nat 1%nat) (Fb 3%nat 2%nat) (Fb 3%nat 3%nat) (Fb 3%nat 4%nat) (Fb 3%nat 5%nat) (Fb 3%nat 6%nat) (Fb 3%nat 7%nat) (Fb 3%nat 8%nat) (Fb 4%nat 0%nat) (Fb 4%nat 1%nat) (Fb 4%nat 2%nat) (Fb 4%nat 3%nat) (Fb 4%nat 4%nat) (Fb 4%nat 5%nat) (Fb 4%nat 6%nat) (Fb 4%nat 7%nat) (Fb 4%nat 8%nat) (Fb 5%nat 0%nat) (Fb 5%nat 1%nat) (Fb 5%nat 2%nat) (Fb 5%nat 3%nat) (Fb 5%nat 4%nat) (Fb 5%nat 5%nat) (Fb 5%nat 6%nat) (Fb 5%nat 7%nat) (Fb 5%nat 8%nat) (Fb 6%nat 0%nat) (Fb 6%nat 1%nat) (Fb 6%nat 2%nat) (Fb 6%nat 3%nat) (Fb 6%nat 4%nat) (Fb 6%nat 5%nat) (Fb 6%nat 6%nat) (Fb 6%nat 7%nat) (Fb 6%nat 8%nat) (Fb 7%nat 0%nat) (Fb 7%nat 1%nat) (Fb 7%nat 2%nat) (Fb 7%nat 3%nat) (Fb 7%nat 4%nat) (Fb 7%nat 5%nat) (Fb 7%nat 6%nat) (Fb 7%nat 7%nat) (Fb 7%nat 8%nat) (Fb 8%nat 0%nat) (Fb 8%nat 1%nat) (Fb 8%nat 2%nat) (Fb 8%nat 3%nat) (Fb 8%nat 4%nat) (Fb 8%nat 5%nat) (Fb 8%nat 6%nat) (Fb 8%nat 7%nat) (Fb 8%nat 8%nat) (Ga 0%nat 0%nat) (Ga 0%nat 1%nat) (Ga 0%nat 2%nat) (Ga 1%nat 0%nat) (Ga 1%nat 1%nat) (Ga 1%nat 2%nat) (Ga 2%nat 0%nat) (Ga 2%nat 1%nat) (Ga 2%nat 2%nat) (Ga 3%nat 0%nat) (Ga 3%nat 1%nat) (Ga 3%nat 2%nat) (Ga 4%nat 0%nat) (Ga 4%nat 1%nat) (Ga 4%nat 2%nat) (Ga 5%nat 0%nat) (Ga 5%nat 1%nat) (Ga 5%nat 2%nat) (Ga 6%nat 0%nat) (Ga 6%nat 1%nat) (Ga 6%nat 2%nat) (Ga 7%nat 0%nat) (Ga 7%nat 1%nat) (Ga 7%nat 2%nat) (Ga 8%nat 0%nat) (Ga 8%nat 1%nat) (Ga 8%nat 2%nat) (Gb 0%nat 0%nat) (Gb 0%nat 1%nat) (Gb 0%nat 2%nat) (Gb 1%nat 0%nat) (Gb 1%nat 1%nat) (Gb 1%nat 2%nat) (Gb 2%nat 0%nat) (Gb 2%nat 1%nat) (Gb 2%nat 2%nat) (Gb 3%nat 0%nat) (Gb 3%nat 1%nat) (Gb 3%nat 2%nat) (Gb 4%nat 0%nat) (Gb 4%nat 1%nat) (Gb 4%nat 2%nat) (Gb 5%nat 0%nat) (Gb 5%nat 1%nat) (Gb 5%nat 2%nat) (Gb 6%nat 0%nat) (Gb 6%nat 1%nat) (Gb 6%nat 2%nat) (Gb 7%nat 0%nat) (Gb 7%nat 1%nat) (Gb 7%nat 2%nat) (Gb 8%nat 0%nat) (Gb 8%nat 1%nat) (Gb 8%nat 2%nat) (Aa 0%nat 0%nat) (Aa 0%nat 1%nat) (Aa 0%nat 2%nat) (Aa 1%nat 0%nat) (Aa 1%nat 1%nat) (Aa 1%nat 2%nat) (Aa 2%nat 0%nat) (Aa 2%nat 1%nat) (Aa 2%nat 2%nat) (Aa 3%nat 0%nat) (Aa 3%nat 1%nat) (Aa 3%nat 2%nat) (Aa 4%nat 0%nat) (Aa 4%nat 1%nat) (Aa 4%nat 2%nat) (Aa 5%nat 0%nat) (Aa 5%nat 1%nat) (Aa 5%nat 2%nat) (Aa 6%nat 0%nat) (Aa 6%nat 1%nat) (Aa 6%nat 2%nat) (Aa 7%nat 0%nat) (Aa 7%nat 1%nat) (Aa 7%nat 2%nat) (Aa 8%nat 0%nat) (Aa 8%nat 1%nat) (Aa 8%nat 2%nat) (Ab 0%nat 0%nat) (Ab 0%nat 1%nat) (Ab 0%nat 2%nat) (Ab 1%nat 0%nat) (Ab 1%nat 1%nat) (Ab 1%nat 2%nat) (Ab 2%nat 0%nat) (Ab 2%nat 1%nat) (Ab 2%nat 2%nat) (Ab 3%nat 0%nat) (Ab 3%nat 1%nat) (Ab 3%nat 2%nat) (Ab 4%nat 0%nat) (Ab 4%nat 1%nat) (Ab 4%nat 2%nat) (Ab 5%nat 0%nat) (Ab 5%nat 1%nat) (Ab 5%nat 2%nat) (Ab 6%nat 0%nat) (Ab 6%nat 1%nat) (Ab 6%nat 2%nat) (Ab 7%nat 0%nat) (Ab 7%nat 1%nat) (Ab 7%nat 2%nat) (Ab 8%nat 0%nat) (Ab 8%nat 1%nat) (Ab 8%nat 2%nat) (x 0%nat) (x 1%nat) (x 2%nat) (x 3%nat) (x 4%nat) (x 5%nat) (x 6%nat) (x 7%nat) (x 8%nat) (eg 0%nat) (eg 1%nat) (eg 2%nat) (ea 0%nat) (ea 1%nat) (ea 2%nat)
+  | 8 => prop3d_x8 dt (Fa 0%nat 0%nat) (Fa 0%nat 1%nat) (Fa 0%nat 2%nat) (Fa 0%nat 3%nat) (Fa 0%nat 4%nat) (Fa 0%nat 5%nat) (Fa 0%nat 6%nat) (Fa 0%nat 7%nat) (Fa 0%nat 8%nat) (Fa 1%nat 0%nat) (Fa 1%nat 1%nat) (Fa 1%nat 2%nat) (Fa 1%nat 3%nat) (Fa 1%nat 4%nat) (Fa 1%nat 5%nat) (Fa 1%nat 6%nat) (Fa 1%nat 7%nat) (Fa 1%nat 8%nat) (Fa 2%nat 0%nat) (Fa 2%nat 1%nat) (Fa 2%nat 2%nat) (Fa 2%nat 3%nat) (Fa 2%nat 4%nat) (Fa 2%nat 5%nat) (Fa 2%nat 6%nat) (Fa 2%nat 7%nat) (Fa 2%nat 8%nat) (Fa 3%nat 0%nat) (Fa 3%nat 1%nat) (Fa 3%nat 2%nat) (Fa 3%nat 3%nat) (Fa 3%nat 4%nat) (Fa 3%nat 5%nat) (Fa 3%nat 6%nat) (Fa 3%nat 7%nat) (Fa 3%nat 8%nat) (Fa 4%nat 0%nat) (Fa 4%nat 1%nat) (Fa 4%nat 2%nat) (Fa 4%nat 3%nat) (Fa 4%nat 4%nat) (Fa 4%nat 5%nat) (Fa 4%nat 6%nat) (Fa 4%nat 7%nat) (Fa 4%nat 8%nat) (Fa 5%nat 0%nat) (Fa 5%nat 1%nat) (Fa 5%nat 2%nat) (Fa 5%nat 3%nat) (Fa 5%nat 4%nat) (Fa 5%nat 5%nat) (Fa 5%nat 6%nat) (Fa 5%nat 7%nat) (Fa 5%nat 8%nat) (Fa 6%nat 0%nat) (Fa 6%nat 1%nat) (Fa 6%nat 2%nat) (Fa 6%nat 3%nat) (Fa 6%nat 4%nat) (Fa 6%nat 5%nat) (Fa 6%nat 6%nat) (Fa 6%nat 7%nat) (Fa 6%nat 8%nat) (Fa 7%nat 0%nat) (Fa 7%nat 1%nat) (Fa 7%nat 2%nat) (Fa 7%nat 3%nat) (Fa 7%nat 4%nat) (Fa 7%nat 5%nat) (Fa 7%nat 6%nat) (Fa 7%nat 7%nat) (Fa 7%nat 8%nat) (Fa 8%nat 0%nat) (Fa 8%nat 1%nat) (Fa 8%nat 2%nat) (Fa 8%nat 3%nat) (Fa 8%nat 4%nat) (Fa 8%nat 5%nat) (Fa 8%nat 6%nat) (Fa 8%nat 7%nat) (Fa 8%nat 8%nat) (Fb 0%nat 0%nat) (Fb 0%nat 1%nat) (Fb 0%nat 2%nat) (Fb 0%nat 3%nat) (Fb 0%nat 4%nat) (Fb 0%nat 5%nat) (Fb 0%nat 6%nat) (Fb 0%nat 7%nat) (Fb 0%nat 8%nat) (Fb 1%nat 0%nat) (Fb 1%nat 1%nat) (Fb 1%nat 2%nat) (Fb 1%nat 3%nat) (Fb 1%nat 4%nat) (Fb 1%nat 5%nat) (Fb 1%nat 6%nat) (Fb 1%nat 7%nat) (Fb 1%nat 8%nat) (Fb 2%nat 0%nat) (Fb 2%nat 1%nat) (Fb 2%nat 2%nat) (Fb 2%nat 3%nat) (Fb 2%nat 4%nat) (Fb 2%nat 5%nat) (Fb 2%nat 6%nat) (Fb 2%nat 7%nat) (Fb 2%nat 8%nat) (Fb 3%nat 0%nat) (Fb 3%nat 1%nat) (Fb 3%nat 2%nat) (Fb 3%nat 3%nat) (Fb 3%nat 4%nat) (Fb 3%nat 5%nat) (Fb 3%nat 6%nat) (Fb 3%nat 7%nat) (Fb 3%nat 8%nat) (Fb 4%nat 0%nat) (Fb 4%nat 1%nat) (Fb 4%nat 2%nat) (Fb 4%nat 3%nat) (Fb 4%nat 4%nat) (Fb 4%nat 5%nat) (Fb 4%nat 6%nat) (Fb 4%nat 7%nat) (Fb 4%nat 8%nat) (Fb 5%nat 0%nat) (Fb 5%nat 1%nat) (Fb 5%nat 2%nat) (Fb 5%nat 3%nat) (Fb 5%nat 4%nat) (Fb 5%nat 5%nat) (Fb 5%nat 6%nat) (Fb 5%nat 7%nat) (Fb 5%nat 8%nat) (Fb 6%nat 0%nat) (Fb 6%nat 1%nat) (Fb 6%nat 2%nat) (Fb 6%nat 3%nat) (Fb 6%nat 4%nat) (Fb 6%nat 5%nat) (Fb 6%nat 6%nat) (Fb 6%nat 7%nat) (Fb 6%nat 8%nat) (Fb 7%nat 0%nat) (Fb 7%nat 1%nat) (Fb 7%nat 2%nat) (Fb 7%nat 3%nat) (Fb 7%nat 4%nat) (Fb 7%nat 5%nat) (Fb 7%nat 6%nat) (Fb 7%nat 7%nat) (Fb 7%nat 8%nat) (Fb 8%nat 0%nat) (Fb 8%nat 1%nat) (Fb 8%nat 2%nat) (Fb 8%nat 3%nat) (Fb 8%nat 4%nat) (Fb 8%nat 5%nat) (Fb 8%nat 6%nat) (Fb 8%nat 7%nat) (Fb 8%nat 8%nat) (Ga 0%nat 0%nat) (Ga 0%nat 1%nat) (Ga 0%nat 2%nat) (Ga 1%nat 0%nat) (Ga 1%nat 1%nat) (Ga 1%nat 2%nat) (Ga 2%nat 0%nat) (Ga 2%nat 1%nat) (Ga 2%nat 2%nat) (Ga 3%nat 0%nat) (Ga 3%nat 1%nat) (Ga 3%nat 2%nat) (Ga 4%nat 0%nat) (Ga 4%nat 1%nat) (Ga 4%nat 2%nat) (Ga 5%nat 0%nat) (Ga 5%nat 1%nat) (Ga 5%nat 2%nat) (Ga 6%nat 0%nat) (Ga 6%nat 1%nat) (Ga 6%nat 2%nat) (Ga 7%nat 0%nat) (Ga 7%nat 1%nat) (Ga 7%nat 2%nat) (Ga 8%nat 0%nat) (Ga 8%nat 1%nat) (Ga 8%nat 2%nat) (Gb 0%nat 0%nat) (Gb 0%nat 1%nat) (Gb 0%nat 2%nat) (Gb 1%nat 0%nat) (Gb 1%nat 1%nat) (Gb 1%nat 2%nat) (Gb 2%nat 0%nat) (Gb 2%nat 1%nat) (Gb 2%nat 2%nat) (Gb 3%nat 0%nat) (Gb 3%nat 1%nat) (Gb 3%nat 2%nat) (Gb 4%nat 0%nat) (Gb 4%nat 1%nat) (Gb 4%nat 2%nat) (Gb 5%nat 0%nat) (Gb 5%nat 1%nat) (Gb 5%nat 2%nat) (Gb 6%nat 0%nat) (Gb 6%nat 1%nat) (Gb 6%nat 2%nat) (Gb 7%nat 0%nat) (Gb 7%nat 1%nat) (Gb 7%nat 2%nat) (Gb 8%nat 0%nat) (Gb 8%nat 1%nat) (Gb 8%nat 2%nat) (Aa 0%nat 0%nat) (Aa 0%nat 1%nat) (Aa 0%nat 2%nat) (Aa 1%nat 0%nat) (Aa 1%nat 1%nat) (Aa 1%nat 2%nat) (Aa 2%nat 0%nat) (Aa 2%nat 1%nat) (Aa 2%nat 2%nat) (Aa 3%nat 0%nat) (Aa 3%nat 1%nat) (Aa 3%nat 2%nat) (Aa 4%nat 0%nat) (Aa 4%nat 1%nat) (Aa 4%nat 2%nat) (Aa 5%nat 0%nat) (Aa 5%nat 1%nat) (Aa 5%nat 2%nat) (Aa 6%nat 0%nat) (Aa 6%nat 1%nat) (Aa 6%nat 2%nat) (Aa 7%nat 0%nat) (Aa 7%nat 1%nat) (Aa 7%nat 2%nat) (Aa 8%nat 0%nat) (Aa 8%nat 1%nat) (Aa 8%nat 2%nat) (Ab 0%nat 0%nat) (Ab 0%nat 1%nat) (Ab 0%nat 2%nat) (Ab 1%nat 0%nat) (Ab 1%nat 1%nat) (Ab 1%nat 2%nat) (Ab 2%nat 0%nat) (Ab 2%nat 1%nat) (Ab 2%nat 2%nat) (Ab 3%nat 0%nat) (Ab 3%nat 1%nat) (Ab 3%nat 2%nat) (Ab 4%nat 0%nat) (Ab 4%nat 1%nat) (Ab 4%nat 2%nat) (Ab 5%nat 0%nat) (Ab 5%nat 1%nat) (Ab 5%nat 2%nat) (Ab 6%nat 0%nat) (Ab 6%nat 1%nat) (Ab 6%nat 2%nat) (Ab 7%nat 0%nat) (Ab 7%nat 1%nat) (Ab 7%nat 2%nat) (Ab 8%nat 0%nat) (Ab 8%nat 1%nat) (Ab 8%nat 2%nat) (x 0%nat) (x 1%nat) (x 2%nat) (x 3%nat) (x 4%nat) (x 5%nat) (x 6%nat) (x 7%nat) (x 8%nat) (eg 0%nat) (eg 1%nat) (eg 2%nat) (ea 0%nat) (ea 1%nat) (ea 2%nat)
+  | _ => 0%R
+  end%nat.
+Definition rate3 (i : nat) (Fa Fb Ga Gb Aa Ab : mat) (x eg ea : nat -> R) : R :=
+  (Fa i 0%nat + Fb i 0%nat) / 2 * x 0%nat + (Fa i 1%nat + Fb i 1%nat) / 2 * x 1%nat + (Fa i 2%nat + Fb i 2%nat) / 2 * x 2%nat + (Fa i 3%nat + Fb i 3%nat) / 2 * x 3%nat + (Fa i 4%nat + Fb i 4%nat) / 2 * x 4%nat + (Fa i 5%nat + Fb i 5%nat) / 2 * x 5%nat + (Fa i 6%nat + Fb i 6%nat) / 2 * x 6%nat + (Fa i 7%nat + Fb i 7%nat) / 2 * x 7%nat + (Fa i 8%nat + Fb i 8%nat) / 2 * x 8%nat
+  + (Ga i 0%nat + Gb i 0%nat) / 2 * eg 0%nat + (Ga i 1%nat + Gb i 1%nat) / 2 * eg 1%nat + (Ga i 2%nat + Gb i 2%nat) / 2 * eg 2%nat
+  + (Aa i 0%nat + Ab i 0%nat) / 2 * ea 0%nat + (Aa i 1%nat + Ab i 1%nat) / 2 * ea 1%nat + (Aa i 2%nat + Ab i 2%nat) / 2 * ea 2%nat.
+
+Lemma propagate_consistent_3d : forall (Fa Fb Ga Gb Aa Ab : mat) (x eg ea : nat -> R) (i : nat), (i < 9)%nat ->
+  prop3 i 0 Fa Fb Ga Gb Aa Ab x eg ea = x i /\
+  is_derive (fun dt => prop3 i dt Fa Fb Ga Gb Aa Ab x eg ea) 0 (rate3 i Fa Fb Ga Gb Aa Ab x eg ea).
+Proof.
+  intros Fa Fb Ga Gb Aa Ab x eg ea i Hi.
+  pattern i; revert i Hi; apply lt9_cases;
+  (split; [ cbn [prop3]; unfold prop3d_x0, prop3d_x1, prop3d_x2, prop3d_x3, prop3d_x4, prop3d_x5, prop3d_x6, prop3d_x7, prop3d_x8; unfold Rdiv; ring
+          | cbn [prop3]; unfold prop3d_x0, prop3d_x1, prop3d_x2, prop3d_x3, prop3d_x4, prop3d_x5, prop3d_x6, prop3d_x7, prop3d_x8, rate3; auto_derive; [exact I | unfold Rdiv; ring] ]).
+Qed.
+
+Definition prop2 (i : nat) (dt : R) (Fa Fb Ga Gb Aa Ab : mat) (x eg ea : nat -> R) : R :=
+  match i with
+  | 0 => prop2d_x0 dt (Fa 0%nat 0%nat) (Fa 0%nat 1%nat) (Fa 0%nat 2%nat) (Fa 0%nat 3%nat) (Fa 0%nat 4%nat) (Fa 0%nat 5%nat) (Fa 0%nat 6%nat) (Fa 1%nat 0%nat) (Fa 1%nat 1%nat) (Fa 1%nat 2%nat) (Fa 1%nat 3%nat) (Fa 1%nat 4%nat) (Fa 1%nat 5%nat) (Fa 1%nat 6%nat) (Fa 2%nat 0%nat) (Fa 2%nat 1%nat) (Fa 2%nat 2%nat) (Fa 2%nat 3%nat) (Fa 2%nat 4%nat) (Fa 2%nat 5%nat) (Fa 2%nat 6%nat) (Fa 3%nat 0%nat) (Fa 3%nat 1%nat) (Fa 3%nat 2%nat) (Fa 3%nat 3%nat) (Fa 3%nat 4%nat) (Fa 3%nat 5%nat) (Fa 3%nat 6%nat) (Fa 4%nat 0%nat) (Fa 4%nat 1%nat) (Fa 4%nat 2%nat) (Fa 4%nat 3%nat) (Fa 4%nat 4%nat) (Fa 4%nat 5%nat) (Fa 4%nat 6%nat) (Fa 5%nat 0%nat) (Fa 5%nat 1%nat) (Fa 5%nat 2%nat) (Fa 5%nat 3%nat) (Fa 5%nat 4%nat) (Fa 5%nat 5%nat) (Fa 5%nat 6%nat) (Fa 6%nat 0%nat) (Fa 6%nat 1%nat) (Fa 6%nat 2%nat) (Fa 6%nat 3%nat) (Fa 6%nat 4%nat) (Fa 6%nat 5%nat) (Fa 6%nat 6%nat) (Fb 0%nat 0%nat) (Fb 0%nat 1%nat) (Fb 0%nat 2%nat) (Fb 0%nat 3%nat) (Fb 0%nat 4%nat) (Fb 0%nat 5%nat) (Fb 0%nat 6%nat) (Fb 1%nat 0%nat) (Fb 1%nat 1%nat) (Fb 1%nat 2%nat) (Fb 1%nat 3%nat) (Fb 1%nat 4%nat) (Fb 1%nat 5%nat) (Fb 1%nat 6%nat) (Fb 2%nat 0%nat) (Fb 2%nat 1%nat) (Fb 2%nat 2%nat) (Fb 2%nat 3%nat) (Fb 2%nat 4%nat) (Fb 2%nat 5%nat) (Fb 2%nat 6%nat) (Fb 3%nat 0%nat) (Fb 3%nat 1%nat) (Fb 3%nat 2%nat) (Fb 3%nat 3%nat) (Fb 3%nat 4%nat) (Fb 3%nat 5%nat) (Fb 3%nat 6%nat) (Fb 4%nat 0%nat) (Fb 4%nat 1%nat) (Fb 4%nat 2%nat) (Fb 4%nat 3%nat) (Fb 4%nat 4%nat) (Fb 4%nat 5%nat) (Fb 4%nat 6%nat) (Fb 5%nat 0%nat) (Fb 5%nat 1%nat) (Fb 5%nat 2%nat) (Fb 5%nat 3%nat) (Fb 5%nat 4%nat) (Fb 5%nat 5%nat) (Fb 5%nat 6%nat) (Fb 6%nat 0%nat) (Fb 6%nat 1%nat) (Fb 6%nat 2%nat) (Fb 6%nat 3%nat) (Fb 6%nat 4%nat) (Fb 6%nat 5%nat) (Fb 6%nat 6%nat) (Ga 0%nat 0%nat) (Ga 0%nat 1%nat) (Ga 0%nat 2%nat) (Ga 1%nat 0%nat) (Ga 1%nat 1%nat) (Ga 1%nat 2%nat) (Ga 2%nat 0%nat) (Ga 2%nat 1%nat) (Ga 2%nat 2%nat) (Ga 3%nat 0%nat) (Ga 3%nat 1%nat) (Ga 3%nat 2%nat) (Ga 4%nat 0%nat) (Ga 4%nat 1%nat) (Ga 4%nat 2%nat) (Ga 5%nat 0%nat) (Ga 5%nat 1%nat) (Ga 5%nat 2%nat) (Ga 6%nat 0%nat) (Ga 6%nat 1%nat) (Ga 6%nat 2%nat) (Gb 0%nat 0%nat) (Gb 0%nat 1%nat) (Gb 0%nat 2%nat) (Gb 1%nat 0%nat) (Gb 1%nat 1%nat) (Gb 1%nat 2%nat) (Gb 2%nat 0%nat) (Gb 2%nat 1%nat) (Gb 2%nat 2%nat) (Gb 3%nat 0%nat) (Gb 3%nat 1%nat) (Gb 3%nat 2%nat) (Gb 4%nat 0%nat) (Gb 4%nat 1%nat) (Gb 4%nat 2%nat) (Gb 5%nat 0%nat) (Gb 5%nat 1%nat) (Gb 5%nat 2%nat) (Gb 6%nat 0%nat) (Gb 6%nat 1%nat) (Gb 6%nat 2%nat) (Aa 0%nat 0%nat) (Aa 0%nat 1%nat) (Aa 0%nat 2%nat) (Aa 1%nat 0%nat) (Aa 1%nat 1%nat) (Aa 1%nat 2%nat) (Aa 2%nat 0%nat) (Aa 2%nat 1%nat) (Aa 2%nat 2%nat) (Aa 3%nat 0%nat) (Aa 3%nat 1%nat) (Aa 3%nat 2%nat) (Aa 4%nat 0%nat) (Aa 4%nat 1%nat) (Aa 4%nat 2%nat) (Aa 5%nat 0%nat) (Aa 5%nat 1%nat) (Aa 5%nat 2%nat) (Aa 6%nat 0%nat) (Aa 6%nat 1%nat) (Aa 6%nat 2%nat) (Ab 0%nat 0%nat) (Ab 0%nat 1%nat) (Ab 0%nat 2%nat) (Ab 1%nat 0%nat) (Ab 1%nat 1%nat) (Ab 1%nat 2%nat) (Ab 2%nat 0%nat) (Ab 2%nat 1%nat) (Ab 2%nat 2%nat) (Ab 3%nat 0%nat) (Ab 3%nat 1%nat) (Ab 3%nat 2%nat) (Ab 4%nat 0%nat) (Ab 4%nat 1%nat) (Ab 4%nat 2%nat) (Ab 5%nat 0%nat) (Ab 5%nat 1%nat) (Ab 5%nat 2%nat) (Ab 6%nat 0%nat) (Ab 6%nat 1%nat) (Ab 6%nat 2%nat) (x 0%nat) (x 1%nat) (x 2%nat) (x 3%nat) (x 4%nat) (x 5%nat) (x 6%nat) (eg 0%nat) (eg 1%nat) (eg 2%nat) (ea 0%nat) (ea 1%nat) (ea 2%nat)
+  | 1 => prop2d_x1 dt (Fa 0%nat 0%nat) (Fa 0%nat 1%nat) (Fa 0%nat 2%nat) (Fa 0%nat 3%nat) (Fa 0%nat 4%nat) (Fa 0%nat 5%nat) (Fa 0%nat 6%nat) (Fa 1%nat 0%nat) (Fa 1%nat 1%nat) (Fa 1%nat 2%nat) (Fa 1%nat 3%nat) (Fa 1%nat 4%nat) (Fa 1%nat 5%nat) (Fa 1%nat 6%nat) (Fa 2%nat 0%nat) (Fa 2%nat 1%nat) (Fa 2%nat 2%nat) (Fa 2%nat 3%nat) (Fa 2%nat 4%nat) (Fa 2%nat 5%nat) (Fa 2%nat 6%nat) (Fa 3%nat 0%nat) (Fa 3%nat 1%nat) (Fa 3%nat 2%nat) (Fa 3%nat 3%nat) (Fa 3%nat 4%nat) (Fa 3%nat 5%nat) (Fa 3%nat 6%nat) (Fa 4%nat 0%nat) (Fa 4%nat 1%nat) (Fa 4%nat 2%nat) (Fa 4%nat 3%nat) (Fa 4%nat 4%nat) (Fa 4%nat 5%nat) (Fa 4%nat 6%nat) (Fa 5%nat 0%nat) (Fa 5%nat 1%nat) (Fa 5%nat 2%nat) (Fa 5%nat 3%nat) (Fa 5%nat 4%nat) (Fa 5%nat 5%nat) (Fa 5%nat 6%nat) (Fa 6%nat 0%nat) (Fa 6%nat 1%nat) (Fa 6%nat 2%nat) (Fa 6%nat 3%nat) (Fa 6%nat 4%nat) (Fa 6%nat 5%nat) (Fa 6%nat 6%nat) (Fb 0%nat 0%nat) (Fb 0%nat 1%nat) (Fb 0%nat 2%nat) (Fb 0%nat 3%nat) (Fb 0%nat 4%nat) (Fb 0%nat 5%nat) (Fb 0%nat 6%nat) (Fb 1%nat 0%nat) (Fb 1%nat 1%nat) (Fb 1%nat 2%nat) (Fb 1%nat 3%nat) (Fb 1%nat 4%nat) (Fb 1%nat 5%nat) (Fb 1%nat 6%nat) (Fb 2%nat 0%nat) (Fb 2%nat 1%nat) (Fb 2%nat 2%nat) (Fb 2%nat 3%nat) (Fb 2%nat 4%nat) (Fb 2%nat 5%nat) (Fb 2%nat 6%nat) (Fb 3%nat 0%nat) (Fb 3%nat 1%nat) (Fb 3%nat 2%nat) (Fb 3%nat 3%nat) (Fb 3%nat 4%nat) (Fb 3%nat 5%nat) (Fb 3%nat 6%nat) (Fb 4%nat 0%nat) (Fb 4%nat 1%nat) (Fb 4%nat 2%nat) (Fb 4%nat 3%nat) (Fb 4%nat 4%nat) (Fb 4%nat 5%nat) (Fb 4%nat 6%nat) (Fb 5%nat 0%nat) (Fb 5%nat 1%nat) (Fb 5%nat 2%nat) (Fb 5%nat 3%nat) (Fb 5%nat 4%nat) (Fb 5%nat 5%nat) (Fb 5%nat 6%nat) (Fb 6%nat 0%nat) (Fb 6%nat 1%nat) (Fb 6%nat 2%nat) (Fb 6%nat 3%nat) (Fb 6%nat 4%nat) (Fb 6%nat 5%nat) (Fb 6%nat 6%nat) (Ga 0%nat 0%nat) (Ga 0%nat 1%nat) (Ga 0%nat 2%nat) (Ga 1%nat 0%nat) (Ga 1%nat 1%nat) (Ga 1%nat 2%nat) (Ga 2%nat 0%nat) (Ga 2%nat 1%nat) (Ga 2%nat 2%nat) (Ga 3%nat 0%nat) (Ga 3%nat 1%nat) (Ga 3%nat 2%nat) (Ga 4%nat 0%nat) (Ga 4%nat 1%nat) (Ga 4%nat 2%nat) (Ga 5%nat 0%nat) (Ga 5%nat 1%nat) (Ga 5%nat 2%nat) (Ga 6%nat 0%nat) (Ga 6%nat 1%nat) (Ga 6%nat 2%nat) (Gb 0%nat 0%nat) (Gb 0%nat 1%nat) (Gb 0%nat 2%nat) (Gb 1%nat 0%nat) (Gb 1%nat 1%nat) (Gb 1%nat 2%nat) (Gb 2%nat 0%nat) (Gb 2%nat 1%nat) (Gb 2%nat 2%nat) (Gb 3%nat 0%nat) (Gb 3%nat 1%nat) (Gb 3%nat 2%nat) (Gb 4%nat 0%nat) (Gb 4%nat 1%nat) (Gb 4%nat 2%nat) (Gb 5%nat 0%nat) (Gb 5%nat 1%nat) (Gb 5%nat 2%nat) (Gb 6%nat 0%nat) (Gb 6%nat 1%nat) (Gb 6%nat 2%nat) (Aa 0%nat 0%nat) (Aa 0%nat 1%nat) (Aa 0%nat 2%nat) (Aa 1%nat 0%nat) (Aa 1%nat 1%nat) (Aa 1%nat 2%nat) (Aa 2%nat 0%nat) (Aa 2%nat 1%nat) (Aa 2%nat 2%nat) (Aa 3%nat 0%nat) (Aa 3%nat 1%nat) (Aa 3%nat 2%nat) (Aa 4%nat 0%nat) (Aa 4%nat 1%nat) (Aa 4%nat 2%nat) (Aa 5%nat 0%nat) (Aa 5%nat 1%nat) (Aa 5%nat 2%nat) (Aa 6%nat 0%nat) (Aa 6%nat 1%nat) (Aa 6%nat 2%nat) (Ab 0%nat 0%nat) (Ab 0%nat 1%nat) (Ab 0%nat 2%nat) (Ab 1%nat 0%nat) (Ab 1%nat 1%nat) (Ab 1%nat 2%nat) (Ab 2%nat 0%nat) (Ab 2%nat 1%nat) (Ab 2%nat 2%nat) (Ab 3%nat 0%nat) (Ab 3%nat 1%nat) (Ab 3%nat 2%nat) (Ab 4%nat 0%nat) (Ab 4%nat 1%nat) (Ab 4%nat 2%nat) (Ab 5%nat 0%nat) (Ab 5%nat 1%nat) (Ab 5%nat 2%nat) (Ab 6%nat 0%nat) (Ab 6%nat 1%nat) (Ab 6%nat 2%nat) (x 0%nat) (x 1%nat) (x 2%nat) (x 3%nat) (x 4%nat) (x 5%nat) (x 6%nat) (eg 0%nat) (eg 1%nat) (eg 2%nat) (ea 0%nat) (ea 1%nat) (ea 2%nat)
+  | 2 => prop2d_x2 dt (Fa 0%nat 0%nat) (Fa 0%nat 1%nat) (Fa 0%nat 2%nat) (Fa 0%nat 3%nat) (Fa 0%nat 4%nat) (Fa 0%nat 5%nat) (Fa 0%nat 6%nat) (Fa 1%nat 0%nat) (Fa 1%nat 1%nat) (Fa 1%nat 2%nat) (Fa 1%nat 3%nat) (Fa 1%nat 4%nat) (Fa 1%nat 5%nat) (Fa 1%nat 6%nat) (Fa 2%nat 0%nat) (Fa 2%nat 1%nat) (Fa 2%nat 2%nat) (Fa 2%nat 3%nat) (Fa 2%nat 4%nat) (Fa 2%nat 5%nat) (Fa 2%nat 6%nat) (Fa 3%nat 0%nat) (Fa 3%nat 1%nat) (Fa 3%nat 2%nat) (Fa 3%nat 3%nat) (Fa 3%nat 4%nat) (Fa 3%nat 5%nat) (Fa 3%nat 6%nat) (Fa 4%nat 0%nat) (Fa 4%nat 1%nat) (Fa 4%nat 2%nat) (Fa 4%nat 3%nat) (Fa 4%nat 4%nat) (Fa 4%nat 5%nat) (Fa 4%nat 6%nat) (Fa 5%nat 0%nat) (Fa 5%nat 1%nat) (Fa 5%nat 2%nat) (Fa 5%nat 3%nat) (Fa 5%nat 4%nat) (Fa 5%nat 5%nat) (Fa 5%nat 6%nat) (Fa 6%nat 0%nat) (Fa 6%nat 1%nat) (Fa 6%nat 2%nat) (Fa 6%nat 3%nat) (Fa 6%nat 4%nat) (Fa 6%nat 5%nat) (Fa 6%nat 6%nat) (Fb 0%nat 0%nat) (Fb 0%nat 1%nat) (Fb 0%nat 2%nat) (Fb 0%nat 3%nat) (Fb 0%nat 4%nat) (Fb 0%nat 5%nat) (Fb 0%nat 6%nat) (Fb 1%nat 0%nat) (Fb 1%nat 1%nat) (Fb 1%nat 2%nat) (Fb 1%nat 3%nat) (Fb 1%nat 4%nat) (Fb 1%nat 5%nat) (Fb 1%nat 6%nat) (Fb 2%nat 0%nat) (Fb 2%nat 1%nat) (Fb 2%nat 2%nat) (Fb 2%nat 3%nat) (Fb 2%nat 4%nat) (Fb 2%nat 5%nat) (Fb 2%nat 6%nat) (Fb 3%nat 0%nat) (Fb 3%nat 1%nat) (Fb 3%nat 2%nat) (Fb 3%nat 3%nat) (Fb 3%nat 4%nat) (Fb 3%nat 5%nat) (Fb 3%nat 6%nat) (Fb 4%nat 0%nat) (Fb 4%nat 1%nat) (Fb 4%nat 2%nat) (Fb 4%nat 3%nat) (Fb 4%nat 4%nat) (Fb 4%nat 5%nat) (Fb 4%nat 6%nat) (Fb 5%nat 0%nat) (Fb 5%nat 1%nat) (Fb 5%nat 2%nat) (Fb 5%nat 3%nat) (Fb 5%nat 4%nat) (Fb 5%nat 5%nat) (Fb 5%nat 6%nat) (Fb 6%nat 0%nat) (Fb 6%nat 1%nat) (Fb 6%nat 2%nat) (Fb 6%nat 3%nat) (Fb 6%nat 4%nat) (Fb 6%nat 5%nat) (Fb 6%nat 6%nat) (Ga 0%nat 0%nat) (Ga 0%nat 1%nat) (Ga 0%nat 2%nat) (Ga 1%nat 0%nat) (Ga 1%nat 1%nat) (Ga 1%nat 2%nat) (Ga 2%nat 0%nat) (Ga 2%nat 1%nat) (Ga 2%nat 2%nat) (Ga 3%nat 0%nat) (Ga 3%nat 1%nat) (Ga 3%nat 2%nat) (Ga 4%nat 0%nat) (Ga 4%nat 1%nat) (Ga 4%nat 2%nat) (Ga 5%nat 0%nat) (Ga 5%nat 1%nat) (Ga 5%nat 2%nat) (Ga 6%nat 0%nat) (Ga 6%nat 1%nat) (Ga 6%nat 2%nat) (Gb 0%nat 0%nat) (Gb 0%nat 1%nat) (Gb 0%nat 2%nat) (Gb 1%nat 0%nat) (Gb 1%nat 1%nat) (Gb 1%nat 2%nat) (Gb 2%nat 0%nat) (Gb 2%nat 1%nat) (Gb 2%nat 2%nat) (Gb 3%nat 0%nat) (Gb 3%nat 1%nat) (Gb 3%nat 2%nat) (Gb 4%nat 0%nat) (Gb 4%nat 1%nat) (Gb 4%nat 2%nat) (Gb 5%nat 0%nat) (Gb 5%nat 1%nat) (Gb 5%nat 2%nat) (Gb 6%nat 0%nat) (Gb 6%nat 1%nat) (Gb 6%nat 2%nat) (Aa 0%nat 0%nat) (Aa 0%nat 1%nat) (Aa 0%nat 2%nat) (Aa 1%nat 0%nat) (Aa 1%nat 1%nat) (Aa 1%nat 2%nat) (Aa 2%nat 0%nat) (Aa 2%nat 1%nat) (Aa 2%nat 2%nat) (Aa 3%nat 0%nat) (Aa 3%nat 1%nat) (Aa 3%nat 2%nat) (Aa 4%nat 0%nat) (Aa 4%nat 1%nat) (Aa 4%nat 2%nat) (Aa 5%nat 0%nat) (Aa 5%nat 1%nat) (Aa 5%nat 2%nat) (Aa 6%nat 0%nat) (Aa 6%nat 1%nat) (Aa 6%nat 2%nat) (Ab 0%nat 0%nat) (Ab 0%nat 1%nat) (Ab 0%nat 2%nat) (Ab 1%nat 0%nat) (Ab 1%nat 1%nat) (Ab 1%nat 2%nat) (Ab 2%nat 0%nat) (Ab 2%nat 1%nat) (Ab 2%nat 2%nat) (Ab 3%nat 0%nat) (Ab 3%nat 1%nat) (Ab 3%nat 2%nat) (Ab 4%nat 0%nat) (Ab 4%nat 1%nat) (Ab 4%nat 2%nat) (Ab 5%nat 0%nat) (Ab 5%nat 1%nat) (Ab 5%nat 2%nat) (Ab 6%nat 0%nat) (Ab 6%nat 1%nat) (Ab 6%nat 2%nat) (x 0%nat) (x 1%nat) (x 2%nat) (x 3%nat) (x 4%nat) (x 5%nat) (x 6%nat) (eg 0%nat) (eg 1%nat) (eg 2%nat) (ea 0%nat) (ea 1%nat) (ea 2%nat)
+  | 3 => prop2d_x3 dt (Fa 0%nat 0%nat) (Fa 0%nat 1%nat) (Fa 0%nat 2%nat) (Fa 0%nat 3%nat) (Fa 0%nat 4%nat) (Fa 0%nat 5%nat) (Fa 0%nat 6%nat) (Fa 1%nat 0%nat) (Fa 1%nat 1%nat) (Fa 1%nat 2%nat) (Fa 1%nat 3%nat) (Fa 1%nat 4%nat) (Fa 1%nat 5%nat) (Fa 1%nat 6%nat) (Fa 2%nat 0%nat) (Fa 2%nat 1%nat) (Fa 2%nat 2%nat) (Fa 2%nat 3%nat) (Fa 2%nat 4%nat) (Fa 2%nat 5%nat) (Fa 2%nat 6%nat) (Fa 3%nat 0%nat) (Fa 3%nat 1%nat) (Fa 3%nat 2%nat) (Fa 3%nat 3%nat) (Fa 3%nat 4%nat) (Fa 3%nat 5%nat) (Fa 3%nat 6%nat) (Fa 4%nat 0%nat) (Fa 4%nat 1%nat) (Fa 4%nat 2%nat) (Fa 4%nat 3%nat) (Fa 4%nat 4%nat) (Fa 4%nat 5%nat) (Fa 4%nat 6%nat) (Fa 5%nat 0%nat) (Fa 5%nat 1%nat) (Fa 5%nat 2%nat) (Fa 5%nat 3%nat) (Fa 5%nat 4%nat) (Fa 5%nat 5%nat) (Fa 5%nat 6%nat) (Fa 6%nat 0%nat) (Fa 6%nat 1%nat) (Fa 6%nat 2%nat) (Fa 6%nat 3%nat) (Fa 6%nat 4%nat) (Fa 6%nat 5%nat) (Fa 6%nat 6%nat) (Fb 0%nat 0%nat) (Fb 0%nat 1%nat) (Fb 0%nat 2%nat) (Fb 0%nat 3%nat) (Fb 0%nat 4%nat) (Fb 0%nat 5%nat) (Fb 0%nat 6%nat) (Fb 1%nat 0%nat) (Fb 1%nat 1%nat) (Fb 1%nat 2%nat) (Fb 1%nat 3%nat) (Fb 1%nat 4%nat) (Fb 1%nat 5%nat) (Fb 1%nat 6%nat) (Fb 2%nat 0%nat) (Fb 2%nat 1%nat) (Fb 2%nat 2%nat) (Fb 2%nat 3%nat) (Fb 2%nat 4%nat) (Fb 2%nat 5%nat) (Fb 2%nat 6%nat) (Fb 3%nat 0%nat) (Fb 3%nat 1%nat) (Fb 3%nat 2%nat) (Fb 3%nat 3%nat) (Fb 3%nat 4%nat) (Fb 3%nat 5%nat) (Fb 3%nat 6%nat) (Fb 4%nat 0%nat) (Fb 4%nat 1%nat) (Fb 4%nat 2%nat) (Fb 4%nat 3%nat) (Fb 4%nat 4%nat) (Fb 4%nat 5%nat) (Fb 4%nat 6%nat) (Fb 5%nat 0%nat) (Fb 5%nat 1%nat) (Fb 5%nat 2%nat) (Fb 5%nat 3%nat) (Fb 5%nat 4%nat) (Fb 5%nat 5%nat) (Fb 5%nat 6%nat) (Fb 6%nat 0%nat) (Fb 6%nat 1%nat) (Fb 6%nat 2%nat) (Fb 6%nat 3%nat) (Fb 6%nat 4%nat) (Fb 6%nat 5%nat) (Fb 6%nat 6%nat) (Ga 0%nat 0%nat) (Ga 0%nat 1%nat) (Ga 0%nat 2%nat) (Ga 1%nat 0%nat) (Ga 1%nat 1%nat) (Ga 1%nat 2%nat) (Ga 2%nat 0%nat) (Ga 2%nat 1%nat) (Ga 2%nat 2%nat) (Ga 3%nat 0%nat) (Ga 3%nat 1%nat) (Ga 3%nat 2%nat) (Ga 4%nat 0%nat) (Ga 4%nat 1%nat) (Ga 4%nat 2%nat) (Ga 5%nat 0%nat) (Ga 5%nat 1%nat) (Ga 5%nat 2%nat) (Ga 6%nat 0%nat) (Ga 6%nat 1%nat) (Ga 6%nat 2%nat) (Gb 0%nat 0%nat) (Gb 0%nat 1%nat) (Gb 0%nat 2%nat) (Gb 1%nat 0%nat) (Gb 1%nat 1%nat) (Gb 1%nat 2%nat) (Gb 2%nat 0%nat) (Gb 2%nat 1%nat) (Gb 2%nat 2%nat) (Gb 3%nat 0%nat) (Gb 3%nat 1%nat) (Gb 3%nat 2%nat) (Gb 4%nat 0%nat) (Gb 4%nat 1%nat) (Gb 4%nat 2%nat) (Gb 5%nat 0%nat) (Gb 5%nat 1%nat) (Gb 5%nat 2%nat) (Gb 6%nat 0%nat) (Gb 6%nat 1%nat) (Gb 6%nat 2%nat) (Aa 0%nat 0%nat) (Aa 0%nat 1%nat) (Aa 0%nat 2%nat) (Aa 1%nat 0%nat) (Aa 1%nat 1%nat) (Aa 1%nat 2%nat) (Aa 2%nat 0%nat) (Aa 2%nat 1%nat) (Aa 2%nat 2%nat) (Aa 3%nat 0%nat) (Aa 3%nat 1%nat) (Aa 3%nat 2%nat) (Aa 4%nat 0%nat) (Aa 4%nat 1%nat) (Aa 4%nat 2%nat) (Aa 5%nat 0%nat) (Aa 5%nat 1%nat) (Aa 5%nat 2%nat) (Aa 6%nat 0%nat) (Aa 6%nat 1%nat) (Aa 6%nat 2%nat) (Ab 0%nat 0%nat) (Ab 0%nat 1%nat) (Ab 0%nat 2%nat) (Ab 1%nat 0%nat) (Ab 1%nat 1%nat) (Ab 1%nat 2%nat) (Ab 2%nat 0%nat) (Ab 2%nat 1%nat) (Ab 2%nat 2%nat) (Ab 3%nat 0%nat) (Ab 3%nat 1%nat) (Ab 3%nat 2%nat) (Ab 4%nat 0%nat) (Ab 4%nat 1%nat) (Ab 4%nat 2%nat) (Ab 5%nat 0%nat) (Ab 5%nat 1%nat) (Ab 5%nat 2%nat) (Ab 6%nat 0%nat) (Ab 6%nat 1%nat) (Ab 6%nat 2%nat) (x 0%nat) (x 1%nat) (x 2%nat) (x 3%nat) (x 4%nat) (x 5%nat) (x 6%nat) (eg 0%nat) (eg 1%nat) (eg 2%nat) (ea 0%nat) (ea 1%nat) (ea 2%nat)
+  | 4 => prop2d_x4 dt (Fa 0%nat 0%nat) (Fa 0%nat 1%nat) (Fa 0%nat 2%nat) (Fa 0%nat 3%nat) (Fa 0%nat 4%nat) (Fa 0%nat 5%nat) (Fa 0%nat 6%nat) (Fa 1%nat 0%nat) (Fa 1%nat 1%nat) (Fa 1%nat 2%nat) (Fa 1%nat 3%nat) (Fa 1%nat 4%nat) (Fa 1%nat 5%nat) (Fa 1%nat 6%nat) (Fa 2%nat 0%nat) (Fa 2%nat 1%nat) (Fa 2%nat 2%nat) (Fa 2%nat 3%nat) (Fa 2%nat 4%nat) (Fa 2%nat 5%nat) (Fa 2%nat 6%nat) (Fa 3%nat 0%nat) (Fa 3%nat 1%nat) (Fa 3%nat 2%nat) (Fa 3%nat 3%nat) (Fa 3%nat 4%nat) (Fa 3%nat 5%nat) (Fa 3%nat 6%nat) (Fa 4%nat 0%nat) (Fa 4%nat 1%nat) (Fa 4%nat 2%nat) (Fa 4%nat 3%nat) (Fa 4%nat 4%nat) (Fa 4%nat 5%nat) (Fa 4%nat 6%nat) (Fa 5%nat 0%nat) (Fa 5%nat 1%nat) (Fa 5%nat 2%nat) (Fa 5%nat 3%nat) (Fa 5%nat 4%nat) (Fa 5%nat 5%nat) (Fa 5%nat 6%nat) (Fa 6%nat 0%nat) (Fa 6%nat 1%nat) (Fa 6%nat 2%nat) (Fa 6%nat 3%nat) (Fa 6%nat 4%nat) (Fa 6%nat 5%nat) (Fa 6%nat 6%nat) (Fb 0%nat 0%nat) (Fb 0%nat 1%nat) (Fb 0%nat 2%nat) (Fb 0%nat 3%nat) (Fb 0%nat 4%nat) (Fb 0%nat 5%nat) (Fb 0%nat 6%nat) (Fb 1%nat 0%nat) (Fb 1%nat 1%nat) (Fb 1%nat 2%nat) (Fb 1%nat 3%nat) (Fb 1%nat 4%nat) (Fb 1%nat 5%nat) (Fb 1%nat 6%nat) (Fb 2%nat 0%nat) (Fb 2%nat 1%nat) (Fb 2%nat 2%nat) (Fb 2%nat 3%nat) (Fb 2%nat 4%nat) (Fb 2%nat 5%nat) (Fb 2%nat 6%nat) (Fb 3%nat 0%nat) (Fb 3%nat 1%nat) (Fb 3%nat 2%nat) (Fb 3%nat 3%nat) (Fb 3%nat 4%nat) (Fb 3%nat 5%nat) (Fb 3%nat 6%nat) (Fb 4%nat 0%nat) (Fb 4%nat 1%nat) (Fb 4%nat 2%nat) (Fb 4%nat 3%nat) (Fb 4%nat 4%nat) (Fb 4%nat 5%nat) (Fb 4%nat 6%nat) (Fb 5%nat 0%nat) (Fb 5%nat 1%nat) (Fb 5%nat 2%nat) (Fb 5%nat 3%nat) (Fb 5%nat 4%nat) (Fb 5%nat 5%nat) (Fb 5%nat 6%nat) (Fb 6%nat 0%nat) (Fb 6%nat 1%nat) (Fb 6%nat 2%nat) (Fb 6%nat 3%nat) (Fb 6%nat 4%nat) (Fb 6%nat 5%nat) (Fb 6%nat 6%nat) (Ga 0%nat 0%nat) (Ga 0%nat 1%nat) (Ga 0%nat 2%nat) (Ga 1%nat 0%nat) (Ga 1%nat 1%nat) (Ga 1%nat 2%nat) (Ga 2%nat 0%nat) (Ga 2%nat 1%nat) (Ga 2%nat 2%nat) (Ga 3%nat 0%nat) (Ga 3%nat 1%nat) (Ga 3%nat 2%nat) (Ga 4%nat 0%nat) (Ga 4%nat 1%nat) (Ga 4%nat 2%nat) (Ga 5%nat 0%nat) (Ga 5%nat 1%nat) (Ga 5%nat 2%nat) (Ga 6%nat 0%nat) (Ga 6%nat 1%nat) (Ga 6%nat 2%nat) (Gb 0%nat 0%nat) (Gb 0%nat 1%nat) (Gb 0%nat 2%nat) (Gb 1%nat 0%nat) (Gb 1%nat 1%nat) (Gb 1%nat 2%nat) (Gb 2%nat 0%nat) (Gb 2%nat 1%nat) (Gb 2%nat 2%nat) (Gb 3%nat 0%nat) (Gb 3%nat 1%nat) (Gb 3%nat 2%nat) (Gb 4%nat 0%nat) (Gb 4%nat 1%nat) (Gb 4%nat 2%nat) (Gb 5%nat 0%nat) (Gb 5%nat 1%nat) (Gb 5%nat 2%nat) (Gb 6%nat 0%nat) (Gb 6%nat 1%nat) (Gb 6%nat 2%nat) (Aa 0%nat 0%nat) (Aa 0%nat 1%nat) (Aa 0%nat 2%nat) (Aa 1%nat 0%nat) (Aa 1%nat 1%nat) (Aa 1%nat 2%nat) (Aa 2%nat 0%nat) (Aa 2%nat 1%nat) (Aa 2%nat 2%nat) (Aa 3%nat 0%nat) (Aa 3%nat 1%nat) (Aa 3%nat 2%nat) (Aa 4%nat 0%nat) (Aa 4%nat 1%nat) (Aa 4%nat 2%nat) (Aa 5%nat 0%nat) (Aa 5%nat 1%nat) (Aa 5%nat 2%nat) (Aa 6%nat 0%nat) (Aa 6%nat 1%nat) (Aa 6%nat 2%nat) (Ab 0%nat 0%nat) (Ab 0%nat 1%nat) (Ab 0%nat 2%nat) (Ab 1%nat 0%nat) (Ab 1%nat 1%nat) (Ab 1%nat 2%nat) (Ab 2%nat 0%nat) (Ab 2%nat 1%nat) (Ab 2%nat 2%nat) (Ab 3%nat 0%nat) (Ab 3%nat 1%nat) (Ab 3%nat 2%nat) (Ab 4%nat 0%nat) (Ab 4%nat 1%nat) (Ab 4%nat 2%nat) (Ab 5%nat 0%nat) (Ab 5%nat 1%nat) (Ab 5%nat 2%nat) (Ab 6%nat 0%nat) (Ab 6%nat 1%nat) (Ab 6%nat 2%nat) (x 0%nat) (x 1%nat) (x 2%nat) (x 3%nat) (x 4%nat) (x 5%nat) (x 6%nat) (eg 0%nat) (eg 1%nat) (eg 2%nat) (ea 0%nat) (ea 1%nat) (ea 2%nat)
+  | 5 => prop2d_x5 dt (Fa 0%nat 0%nat) (Fa 0%nat 1%nat) (Fa 0%nat 2%nat) (Fa 0%nat 3%nat) (Fa 0%nat 4%nat) (Fa 0%nat 5%nat) (Fa 0%nat 6%nat) (Fa 1%nat 0%nat) (Fa 1%nat 1%nat) (Fa 1%nat 2%nat) (Fa 1%nat 3%nat) (Fa 1%nat 4%nat) (Fa 1%nat 5%nat) (Fa 1%nat 6%nat) (Fa 2%nat 0%nat) (Fa 2%nat 1%nat) (Fa 2%nat 2%nat) (Fa 2%nat 3%nat) (Fa 2%nat 4%nat) (Fa 2%nat 5%nat) (Fa 2%nat 6%nat) (Fa 3%nat 0%nat) (Fa 3%nat 1%nat) (Fa 3%nat 2%nat) (Fa 3%nat 3%nat) (Fa 3%nat 4%nat) (Fa 3%nat 5%nat) (Fa 3%nat 6%nat) (Fa 4%nat 0%nat) (Fa 4%nat 1%nat) (Fa 4%nat 2%nat) (Fa 4%nat 3%nat) (Fa 4%nat 4%nat) (Fa 4%nat 5%nat) (Fa 4%nat 6%nat) (Fa 5%nat 0%nat) (Fa 5%nat 1%nat) (Fa 5%nat 2%nat) (Fa 5%nat 3%nat) (Fa 5%nat 4%nat) (Fa 5%nat 5%nat) (Fa 5%nat 6%nat) (Fa 6%nat 0%nat) (Fa 6%nat 1%nat) (Fa 6%nat 2%nat) (Fa 6%nat 3%nat) (Fa 6%nat 4%nat) (Fa 6%nat 5%nat) (Fa 6%nat 6%nat) (Fb 0%nat 0%nat) (Fb 0%nat 1%nat) (Fb 0%nat 2%nat) (Fb 0%nat 3%nat) (Fb 0%nat 4%nat) (Fb 0%nat 5%nat) (Fb 0%nat 6%nat) (Fb 1%nat 0%nat) (Fb 1%nat 1%nat) (Fb 1%nat 2%nat) (Fb 1%nat 3%nat) (Fb 1%nat 4%nat) (Fb 1%nat 5%nat) (Fb 1%nat 6%nat) (Fb 2%nat 0%nat) (Fb 2%nat 1%nat) (Fb 2%nat 2%nat) (Fb 2%nat 3%nat) (Fb 2%nat 4%nat) (Fb 2%nat 5%nat) (Fb 2%nat 6%nat) (Fb 3%nat 0%nat) (Fb 3%nat 1%nat) (Fb 3%nat 2%nat) (Fb 3%nat 3%nat) (Fb 3%nat 4%nat) (Fb 3%nat 5%nat) (Fb 3%nat 6%nat) (Fb 4%nat 0%nat) (Fb 4%nat 1%nat) (Fb 4%nat 2%nat) (Fb 4%nat 3%nat) (Fb 4%nat 4%nat) (Fb 4%nat 5%nat) (Fb 4%nat 6%nat) (Fb 5%nat 0%nat) (Fb 5%nat 1%nat) (Fb 5%nat 2%nat) (Fb 5%nat 3%nat) (Fb 5%nat 4%nat) (Fb 5%nat 5%nat) (Fb 5%nat 6%nat) (Fb 6%nat 0%nat) (Fb 6%nat 1%nat) (Fb 6%nat 2%nat) (Fb 6%nat 3%nat) (Fb 6%nat 4%nat) (Fb 6%nat 5%nat) (Fb 6%nat 6%nat) (Ga 0%nat 0%nat) (Ga 0%nat 1%nat) (Ga 0%nat 2%nat) (Ga 1%nat 0%nat) (Ga 1%nat 1%nat) (Ga 1%nat 2%nat) (Ga 2%nat 0%nat) (Ga 2%nat 1%nat) (Ga 2%nat 2%nat) (Ga 3%nat 0%nat) (Ga 3%nat 1%nat) (Ga 3%nat 2%nat) (Ga 4%nat 0%nat) (Ga 4%nat 1%nat) (Ga 4%nat 2%nat) (Ga 5%nat 0%nat) (Ga 5%nat 1%nat) (Ga 5%nat 2%nat) (Ga 6%nat 0%nat) (Ga 6%nat 1%nat) (Ga 6%nat 2%nat) (Gb 0%nat 0%nat) (Gb 0%nat 1%nat) (Gb 0%nat 2%nat) (Gb 1%nat 0%nat) (Gb 1%nat 1%nat) (Gb 1%nat 2%nat) (Gb 2%nat 0%nat) (Gb 2%nat 1%nat) (Gb 2%nat 2%nat) (Gb 3%nat 0%nat) (Gb 3%nat 1%nat) (Gb 3%nat 2%nat) (Gb 4%nat 0%nat) (Gb 4%nat 1%nat) (Gb 4%nat 2%nat) (Gb 5%nat 0%nat) (Gb 5%nat 1%nat) (Gb 5%nat 2%nat) (Gb 6%nat 0%nat) (Gb 6%nat 1%nat) (Gb 6%nat 2%nat) (Aa 0%nat 0%nat) (Aa 0%nat 1%nat) (Aa 0%nat 2%nat) (Aa 1%nat 0%nat) (Aa 1%nat 1%nat) (Aa 1%nat 2%nat) (Aa 2%nat 0%nat) (Aa 2%nat 1%nat) (Aa 2%nat 2%nat) (Aa 3%nat 0%nat) (Aa 3%nat 1%nat) (Aa 3%nat 2%nat) (Aa 4%nat 0%nat) (Aa 4%nat 1%nat) (Aa 4%nat 2%nat) (Aa 5%nat 0%nat) (Aa 5%nat 1%nat) (Aa 5%nat 2%nat) (Aa 6%nat 0%nat) (Aa 6%nat 1%nat) (Aa 6%nat 2%nat) (Ab 0%nat 0%nat) (Ab 0%nat 1%nat) (Ab 0%nat 2%nat) (Ab 1%nat 0%nat) (Ab 1%nat 1%nat) (Ab 1%nat 2%nat) (Ab 2%nat 0%nat) (Ab 2%nat 1%nat) (Ab 2%nat 2%nat) (Ab 3%nat 0%nat) (Ab 3%nat 1%nat) (Ab 3%nat 2%nat) (Ab 4%nat 0%nat) (Ab 4%nat 1%nat) (Ab 4%nat 2%nat) (Ab 5%nat 0%nat) (Ab 5%nat 1%nat) (Ab 5%nat 2%nat) (Ab 6%nat 0%nat) (Ab 6%nat 1%nat) (Ab 6%nat 2%nat) (x 0%nat) (x 1%nat) (x 2%nat) (x 3%nat) (x 4%nat) (x 5%nat) (x 6%nat) (eg 0%nat) (eg 1%nat) (eg 2%nat) (ea 0%nat) (ea 1%nat) (ea 2%nat)
+  | 6 => prop2d_x6 dt (Fa 0%nat 0%nat) (Fa 0%nat 1%nat) (Fa 0%nat 2%nat) (Fa 0%nat 3%nat) (Fa 0%nat 4%nat) (Fa 0%nat 5%nat) (Fa 0%nat 6%nat) (Fa 1%nat 0%nat) (Fa 1%nat 1%nat) (Fa 1%nat 2%nat) (Fa 1%nat 3%nat) (Fa 1%nat 4%nat) (Fa 1%nat 5%nat) (Fa 1%nat 6%nat) (Fa 2%nat 0%nat) (Fa 2%nat 1%nat) (Fa 2%nat 2%nat) (Fa 2%nat 3%nat) (Fa 2%nat 4%nat) (Fa 2%nat 5%nat) (Fa 2%nat 6%nat) (Fa 3%nat 0%nat) (Fa 3%nat 1%nat) (Fa 3%nat 2%nat) (Fa 3%nat 3%nat) (Fa 3%nat 4%nat) (Fa 3%nat 5%nat) (Fa 3%nat 6%nat) (Fa 4%nat 0%nat) (Fa 4%nat 1%nat) (Fa 4%nat 2%nat) (Fa 4%nat 3%nat) (Fa 4%nat 4%nat) (Fa 4%nat 5%nat) (Fa 4%nat 6%nat) (Fa 5%nat 0%nat) (Fa 5%nat 1%nat) (Fa 5%nat 2%nat) (Fa 5%nat 3%nat) (Fa 5%nat 4%nat) (Fa 5%nat 5%nat) (Fa 5%nat 6%nat) (Fa 6%nat 0%nat) (Fa 6%nat 1%nat) (Fa 6%nat 2%nat) (Fa 6%nat 3%nat) (Fa 6%nat 4%nat) (Fa 6%nat 5%nat) (Fa 6%nat 6%nat) (Fb 0%nat 0%nat) (Fb 0%nat 1%nat) (Fb 0%nat 2%nat) (Fb 0%nat 3%nat) (Fb 0%nat 4%nat) (Fb 0%nat 5%nat) (Fb 0%nat 6%nat) (Fb 1%nat 0%nat) (Fb 1%nat 1%nat) (Fb 1%nat 2%nat) (Fb 1%nat 3%nat) (Fb 1%nat 4%nat) (Fb 1%nat 5%nat) (Fb 1%nat 6%nat) (Fb 2%nat 0%nat) (Fb 2%nat 1%nat) (Fb 2%nat 2%nat) (Fb 2%nat 3%nat) (Fb 2%nat 4%nat) (Fb 2%nat 5%nat) (Fb 2%nat 6%nat) (Fb 3%nat 0%nat) (Fb 3%nat 1%nat) (Fb 3%nat 2%nat) (Fb 3%nat 3%nat) (Fb 3%nat 4%nat) (Fb 3%nat 5%nat) (Fb 3%nat 6%nat) (Fb 4%nat 0%nat) (Fb 4%nat 1%nat) (Fb 4%nat 2%nat) (Fb 4%nat 3%nat) (Fb 4%nat 4%nat) (Fb 4%nat 5%nat) (Fb 4%nat 6%nat) (Fb 5%nat 0%nat) (Fb 5%nat 1%nat) (Fb 5%nat 2%nat) (Fb 5%nat 3%nat) (Fb 5%nat 4%nat) (Fb 5%nat 5%nat) (Fb 5%nat 6%nat) (Fb 6%nat 0%nat) (Fb 6%nat 1%nat) (Fb 6%nat 2%nat) (Fb 6%nat 3%nat) (Fb 6%nat 4%nat) (Fb 6%nat 5%nat) (Fb 6%nat 6%nat) (Ga 0%nat 0%nat) (Ga 0%nat 1%nat) (Ga 0%nat 2%nat) (Ga 1%nat 0%nat) (Ga 1%nat 1%nat) (Ga 1%nat 2%nat) (Ga 2%nat 0%nat) (Ga 2%nat 1%nat) (Ga 2%nat 2%nat) (Ga 3%nat 0%nat) (Ga 3%nat 1%nat) (Ga 3%nat 2%nat) (Ga 4%nat 0%nat) (Ga 4%nat 1%nat) (Ga 4%nat 2%nat) (Ga 5%nat 0%nat) (Ga 5%nat 1%nat) (Ga 5%nat 2%nat) (Ga 6%nat 0%nat) (Ga 6%nat 1%nat) (Ga 6%nat 2%nat) (Gb 0%nat 0%nat) (Gb 0%nat 1%nat) (Gb 0%nat 2%nat) (Gb 1%nat 0%nat) (Gb 1%nat 1%nat) (Gb 1%nat 2%nat) (Gb 2%nat 0%nat) (Gb 2%nat 1%nat) (Gb 2%nat 2%nat) (Gb 3%nat 0%nat) (Gb 3%nat 1%nat) (Gb 3%nat 2%nat) (Gb 4%nat 0%nat) (Gb 4%nat 1%nat) (Gb 4%nat 2%nat) (Gb 5%nat 0%nat) (Gb 5%nat 1%nat) (Gb 5%nat 2%nat) (Gb 6%nat 0%nat) (Gb 6%nat 1%nat) (Gb 6%nat 2%nat) (Aa 0%nat 0%nat) (Aa 0%nat 1%nat) (Aa 0%nat 2%nat) (Aa 1%nat 0%nat) (Aa 1%nat 1%nat) (Aa 1%nat 2%nat) (Aa 2%nat 0%nat) (Aa 2%nat 1%nat) (Aa 2%nat 2%nat) (Aa 3%nat 0%nat) (Aa 3%nat 1%nat) (Aa 3%nat 2%nat) (Aa 4%nat 0%nat) (Aa 4%nat 1%nat) (Aa 4%nat 2%nat) (Aa 5%nat 0%nat) (Aa 5%nat 1%nat) (Aa 5%nat 2%nat) (Aa 6%nat 0%nat) (Aa 6%nat 1%nat) (Aa 6%nat 2%nat) (Ab 0%nat 0%nat) (Ab 0%nat 1%nat) (Ab 0%nat 2%nat) (Ab 1%nat 0%nat) (Ab 1%nat 1%nat) (Ab 1%nat 2%nat) (Ab 2%nat 0%nat) (Ab 2%nat 1%nat) (Ab 2%nat 2%nat) (Ab 3%nat 0%nat) (Ab 3%nat 1%nat) (Ab 3%nat 2%nat) (Ab 4%nat 0%nat) (Ab 4%nat 1%nat) (Ab 4%nat 2%nat) (Ab 5%nat 0%nat) (Ab 5%nat 1%nat) (Ab 5%nat 2%nat) (Ab 6%nat 0%nat) (Ab 6%nat 1%nat) (Ab 6%nat 2%nat) (x 0%nat) (x 1%nat) (x 2%nat) (x 3%nat) (x 4%nat) (x 5%nat) (x 6%nat) (eg 0%nat) (eg 1%nat) (eg 2%nat) (ea 0%nat) (ea 1%nat) (ea 2%nat)
+  | _ => 0%R
+  end%nat.
+Definition rate2 (i : nat) (Fa Fb Ga Gb Aa Ab : mat) (x eg ea : nat -> R) : R :=
+  (Fa i 0%nat + Fb i 0%nat) / 2 * x 0%nat + (Fa i 1%nat + Fb i 1%nat) / 2 * x 1%nat + (Fa i 2%nat + Fb i 2%nat) / 2 * x 2%nat + (Fa i 3%nat + Fb i 3%nat) / 2 * x 3%nat + (Fa i 4%nat + Fb i 4%nat) / 2 * x 4%nat + (Fa i 5%nat + Fb i 5%nat) / 2 * x 5%nat + (Fa i 6%nat + Fb i 6%nat) / 2 * x 6%nat
+  + (Ga i 0%nat + Gb i 0%nat) / 2 * eg 0%nat + (Ga i 1%nat + Gb i 1%nat) / 2 * eg 1%nat + (Ga i 2%nat + Gb i 2%nat) / 2 * eg 2%nat
+  + (Aa i 0%nat + Ab i 0%nat) / 2 * ea 0%nat + (Aa i 1%nat + Ab i 1%nat) / 2 * ea 1%nat + (Aa i 2%nat + Ab i 2%nat) / 2 * ea 2%nat.
+
+Lemma propagate_consistent_2d : forall (Fa Fb Ga Gb Aa Ab : mat) (x eg ea : nat -> R) (i : nat), (i < 7)%nat ->
+  prop2 i 0 Fa Fb Ga Gb Aa Ab x eg ea = x i /\
+  is_derive (fun dt => prop2 i dt Fa Fb Ga Gb Aa Ab x eg ea) 0 (rate2 i Fa Fb Ga Gb Aa Ab x eg ea).
+Proof.
+  intros Fa Fb Ga Gb Aa Ab x eg ea i Hi.
+  pattern i; revert i Hi; apply lt7_cases;
+  (split; [ cbn [prop2]; unfold prop2d_x0, prop2d_x1, prop2d_x2, prop2d_x3, prop2d_x4, prop2d_x5, prop2d_x6; unfold Rdiv; ring
+          | cbn [prop2]; unfold prop2d_x0, prop2d_x1, prop2d_x2, prop2d_x3, prop2d_x4, prop2d_x5, prop2d_x6, rate2; auto_derive; [exact I | unfold Rdiv; ring] ]).
+Qed.
+
+
+(** * 11. The neglected terms are small on the flight envelope of the property
+
+    |lat| <= 80 deg, 0 <= alt <= 20 km, each velocity component within +-300 m/s (so any speed <= 300 m/s).
+    Units: rows DR in 1/s (per metre of position error) or m/s per rad; rows DV in 1/s^2 per metre, m/s^2 per rad;
+    rows PHI in rad/s per metre.  For comparison the retained couplings are |V| <= 300 (DR/PHI), g ~ 9.8 (DV/PHI),
+    2 Omega ~ 1.5e-4 (DV/DV), 2 g / a ~ 3e-6 (DV3/DR3), Omega / R ~ 1e-11 (PHI/DR), 1 / R ~ 1.6e-7 (PHI/DV). *)
+Definition flight_domain (s : nstate) : Prop :=
+  -80 <= s_lat s <= 80 /\ 0 <= s_alt s <= 20000 /\
+  -300 <= s_VN s <= 300 /\ -300 <= s_VE s <= 300 /\ -300 <= s_VD s <= 300.
+
+Ltac nb_intro :=
+  intros s (Hlat & Halt & HVN & HVE & HVD);
+  destruct s as [lat lon alt VN VE VD C00 C01 C02 C10 C11 C12 C20 C21 C22];
+  cbn [s_lat s_alt s_VN s_VE s_VD] in *;
+  unfold N00, N02, N10, N11, N12, N30, N36, N37, N38, N40, N47, N50, N56, N57, N58, N60, N62, N70, N72, N80, N82,
+    rn, re, sphi, cphi, tphi; cbn [s_lat s_alt s_VN s_VE s_VD];
+  unfold nav_Rn, nav_Re, R_meridian, R_transverse, dRn_dphi, dRe_dphi, W2l, W2, g0, dg0;
+  unfold A_, E2_, RATE_, GE_, FG_, d2r.
+
+Lemma nb_N00 : forall s, flight_domain s -> Rabs (N00 s) <= 5 / 100000.
+Proof. nb_intro. interval with (i_bisect lat, i_depth 12). Qed.
+Lemma nb_N02 : forall s, flight_domain s -> Rabs (N02 s) <= 5 / 100000.
+Proof. nb_intro. interval with (i_bisect lat, i_depth 12). Qed.
+Lemma nb_N10 : forall s, flight_domain s -> Rabs (N10 s) <= 3 / 10000.
+Proof. nb_intro. interval with (i_bisect lat, i_depth 12). Qed.
+Lemma nb_N11 : forall s, flight_domain s -> Rabs (N11 s) <= 33 / 100000.
+Proof. nb_intro. interval with (i_bisect lat, i_depth 12). Qed.
+Lemma nb_N12 : forall s, flight_domain s -> Rabs (N12 s) <= 5 / 100000.
+Proof. nb_intro. interval with (i_bisect lat, i_depth 12). Qed.
+Lemma nb_N30 : forall s, flight_domain s -> Rabs (N30 s) <= 4 / 1000000000.
+Proof. nb_intro. interval with (i_bisect lat, i_depth 12). Qed.
+Lemma nb_N36 : forall s, flight_domain s -> Rabs (N36 s) <= 22 / 1000.
+Proof. nb_intro. interval with (i_bisect lat, i_depth 12). Qed.
+Lemma nb_N37 : forall s, flight_domain s -> Rabs (N37 s) <= 22 / 1000.
+Proof. nb_intro. interval with (i_bisect lat, i_depth 12). Qed.
+Lemma nb_N38 : forall s, flight_domain s -> Rabs (N38 s) <= 22 / 1000.
+Proof. nb_intro. interval with (i_bisect lat, i_depth 12). Qed.
+Lemma nb_N40 : forall s, flight_domain s -> Rabs (N40 s) <= 5 / 1000000000.
+Proof. nb_intro. interval with (i_bisect lat, i_depth 12). Qed.
+Lemma nb_N47 : forall s, flight_domain s -> Rabs (N47 s) <= 31 / 1000.
+Proof. nb_intro. interval with (i_bisect lat, i_depth 12). Qed.
+Lemma nb_N50 : forall s, flight_domain s -> Rabs (N50 s) <= 13 / 1000000000.
+Proof. nb_intro. interval with (i_bisect lat, i_depth 12). Qed.
+Lemma nb_N56 : forall s, flight_domain s -> Rabs (N56 s) <= 22 / 1000.
+Proof. nb_intro. interval with (i_bisect lat, i_depth 12). Qed.
+Lemma nb_N57 : forall s, flight_domain s -> Rabs (N57 s) <= 22 / 1000.
+Proof. nb_intro. interval with (i_bisect lat, i_depth 12). Qed.
+Lemma nb_N58 : forall s, flight_domain s -> Rabs (N58 s) <= 22 / 1000.
+Proof. nb_intro. interval with (i_bisect lat, i_depth 12). Qed.
+Lemma nb_N60 : forall s, flight_domain s -> Rabs (N60 s) <= 3 / 100000000000000.
+Proof. nb_intro. interval with (i_bisect lat, i_depth 12). Qed.
+Lemma nb_N62 : forall s, flight_domain s -> Rabs (N62 s) <= 8 / 1000000000000.
+Proof. nb_intro. interval with (i_bisect lat, i_depth 12). Qed.
+Lemma nb_N70 : forall s, flight_domain s -> Rabs (N70 s) <= 8 / 100000000000000.
+Proof. nb_intro. interval with (i_bisect lat, i_depth 12). Qed.
+Lemma nb_N72 : forall s, flight_domain s -> Rabs (N72 s) <= 8 / 1000000000000.
+Proof. nb_intro. interval with (i_bisect lat, i_depth 12). Qed.
+Lemma nb_N80 : forall s, flight_domain s -> Rabs (N80 s) <= 3 / 10000000000.
+Proof. nb_intro. interval with (i_bisect lat, i_depth 12). Qed.
+Lemma nb_N82 : forall s, flight_domain s -> Rabs (N82 s) <= 5 / 100000000000.
+Proof. nb_intro. interval with (i_bisect lat, i_depth 12). Qed.
+
+Lemma neglected_small : forall s, flight_domain s ->
+  Rabs (N00 s) <= 5 / 100000 /\
+  Rabs (N02 s) <= 5 / 100000 /\
+  Rabs (N10 s) <= 3 / 10000 /\
+  Rabs (N11 s) <= 33 / 100000 /\
+  Rabs (N12 s) <= 5 / 100000 /\
+  Rabs (N30 s) <= 4 / 1000000000 /\
+  Rabs (N36 s) <= 22 / 1000 /\
+  Rabs (N37 s) <= 22 / 1000 /\
+  Rabs (N38 s) <= 22 / 1000 /\
+  Rabs (N40 s) <= 5 / 1000000000 /\
+  Rabs (N47 s) <= 31 / 1000 /\
+  Rabs (N50 s) <= 13 / 1000000000 /\
+  Rabs (N56 s) <= 22 / 1000 /\
+  Rabs (N57 s) <= 22 / 1000 /\
+  Rabs (N58 s) <= 22 / 1000 /\
+  Rabs (N60 s) <= 3 / 100000000000000 /\
+  Rabs (N62 s) <= 8 / 1000000000000 /\
+  Rabs (N70 s) <= 8 / 100000000000000 /\
+  Rabs (N72 s) <= 8 / 1000000000000 /\
+  Rabs (N80 s) <= 3 / 10000000000 /\
+  Rabs (N82 s) <= 5 / 100000000000.
+Proof.
+  intros s H. splits.
+  - apply nb_N00; exact H.
+  - apply nb_N02; exact H.
+  - apply nb_N10; exact H.
+  - apply nb_N11; exact H.
+  - apply nb_N12; exact H.
+  - apply nb_N30; exact H.
+  - apply nb_N36; exact H.
+  - apply nb_N37; exact H.
+  - apply nb_N38; exact H.
+  - apply nb_N40; exact H.
+  - apply nb_N47; exact H.
+  - apply nb_N50; exact H.
+  - apply nb_N56; exact H.
+  - apply nb_N57; exact H.
+  - apply nb_N58; exact H.
+  - apply nb_N60; exact H.
+  - apply nb_N62; exact H.
+  - apply nb_N70; exact H.
+  - apply nb_N72; exact H.
+  - apply nb_N80; exact H.
+  - apply nb_N82; exact H.
+Qed.
+
+(** * 12. The position part of the chart is the library's perturb_lla (generated, Gen/Transform.v) *)
+Lemma pert_position_is_perturb_lla : forall s x, -90 < s_lat s < 90 ->
+  s_lat (pert s x) = perturb_lla_lat (s_lat s) (s_lon s) (s_alt s) (e0 x) (e1 x) (e2 x) /\
+  s_lon (pert s x) = perturb_lla_lon (s_lat s) (s_lon s) (s_alt s) (e0 x) (e1 x) (e2 x) /\
+  s_alt (pert s x) = perturb_lla_alt (s_lat s) (s_lon s) (s_alt s) (e0 x) (e1 x) (e2 x).
+Proof.
+  intros s x Hlat. destruct s as [lat lon alt VN VE VD C00 C01 C02 C10 C11 C12 C20 C21 C22].
+  destruct x as [x0 x1 x2 x3 x4 x5 x6 x7 x8]. cbn [s_lat] in Hlat.
+  unfold pert, sadd, pdelta; cbn [s_lat s_lon s_alt e0 e1 e2].
+  unfold perturb_lla_lat, perturb_lla_lon, perturb_lla_alt, pd_lat, pd_lon, pd_alt.
+  repeat autounfold with perturb_lla_db.
+  rewrite (sqrt_1msin2 (lat * (PI / 180))) by (apply cos_d2r_nonneg; lra).
+  fold_geo lat. unfold r2d, d2r, Rdiv. splits; ring.
+Qed.
